@@ -18,9 +18,13 @@ def wrapTy (ty : CTy) (v : BitVec 64) : BitVec 64 :=
     else v
   else v
 
+/-- `eval_double(n) != 0` as inlined (the truth value of a floating operand) -/
+def fpTruth (h : HostMode) (fp : FpEnv) (n : CNode) : Except Fail Bool :=
+  (evalDouble h fp n) >>= fun d => pure (!(fp.eq80 d (fp.i32to80 (0#32))))
+
 /-- `eval_truth` as inlined at its call sites -/
 def truth (h : HostMode) (fp : FpEnv) (n : CNode) : Except Fail Bool :=
-  (CNode.tyOf n) >>= fun t => if (isFlonum t) then (fp.neZero n) else ((eval2 h fp n false) >>= fun v => pure (v != (0#64)))
+  (CNode.tyOf n) >>= fun t => if (isFlonum t) then (fpTruth h fp n) else ((eval2 h fp n false) >>= fun v => pure (v != (0#64)))
 
 theorem truth_eq_evalTruth (h : HostMode) (fp : FpEnv) (n : CNode) : truth h fp n = evalTruth h fp n := rfl
 
@@ -42,24 +46,25 @@ theorem wrapM_eq (ty : CTy) (v : BitVec 64) : wrapM ty v = pure (wrapTy ty v) :=
 
 theorem wrapK (ty : CTy) : wrapM ty = fun v => pure (wrapTy ty v) := funext (wrapM_eq ty)
 
-/-- unfolds `eval2 (mk K ..)` to `raw >>= fun v => pure (wrapTy ty v)` -/
+/-- unfolds `eval2 (mk K ..)` (K a constructor, `hf : isFlonum ty = false` in the context) to
+    `raw >>= fun v => pure (wrapTy ty v)` -/
 macro "arm" : tactic =>
-  `(tactic| (rw [eval2]; simp only [*, Bool.false_eq_true, ite_false]; change (_ >>= wrapM _) = _; rw [wrapK]))
+  `(tactic| (rw [eval2.eq_def]; simp only [*, Bool.false_eq_true, ite_false]; change (_ >>= wrapM _) = _; rw [wrapK]))
 
-variable (h : HostMode) (fp : FpEnv) (ty : CTy) (nv : BitVec 64) (l r c t e : CNode) (label : Bool)
+variable (h : HostMode) (fp : FpEnv) (ty : CTy) (nv : BitVec 64) (fv : BitVec 80) (l r c t e : CNode) (label : Bool)
 
-theorem eval2_null : eval2 h fp .null label = .error (.crash "NULL node dereferenced") := by rw [eval2]
+theorem eval2_null : eval2 h fp .null label = .error (.crash "NULL node dereferenced") := by rw [eval2.eq_def]
 
 theorem eval2_ADD (hf : isFlonum ty = false) :
-    eval2 h fp (.mk .ND_ADD ty nv l r c t e) label
+    eval2 h fp (.mk .ND_ADD ty nv fv l r c t e) label
       = ((eval2 h fp l label >>= fun a => eval2 h fp r false >>= fun b => addS h a b) >>= fun v => pure (wrapTy ty v)) := by arm
 
 theorem eval2_SUB (hf : isFlonum ty = false) :
-    eval2 h fp (.mk .ND_SUB ty nv l r c t e) label
+    eval2 h fp (.mk .ND_SUB ty nv fv l r c t e) label
       = ((eval2 h fp l label >>= fun a => eval2 h fp r false >>= fun b => subS h a b) >>= fun v => pure (wrapTy ty v)) := by arm
 
 theorem eval2_MUL (hf : isFlonum ty = false) :
-    eval2 h fp (.mk .ND_MUL ty nv l r c t e) label
+    eval2 h fp (.mk .ND_MUL ty nv fv l r c t e) label
       = ((eval2 h fp l false >>= fun a => eval2 h fp r false >>= fun b => mulS h a b) >>= fun v => pure (wrapTy ty v)) := by arm
 
 /-- the `ND_DIV`/`ND_MOD` arm after both operands are evaluated -/
@@ -70,116 +75,235 @@ def divmod (h : HostMode) (isDiv : Bool) (ty : CTy) (a b : BitVec 64) : Except F
   else (if isDiv then divS h a b else modS h a b)
 
 theorem eval2_DIV (hf : isFlonum ty = false) :
-    eval2 h fp (.mk .ND_DIV ty nv l r c t e) label
+    eval2 h fp (.mk .ND_DIV ty nv fv l r c t e) label
       = ((eval2 h fp l false >>= fun a => eval2 h fp r false >>= fun b => divmod h true ty a b) >>= fun v => pure (wrapTy ty v)) := by
   arm; simp only [divmod, beq_self_eq_true, ite_true]
 
 theorem eval2_MOD (hf : isFlonum ty = false) :
-    eval2 h fp (.mk .ND_MOD ty nv l r c t e) label
+    eval2 h fp (.mk .ND_MOD ty nv fv l r c t e) label
       = ((eval2 h fp l false >>= fun a => eval2 h fp r false >>= fun b => divmod h false ty a b) >>= fun v => pure (wrapTy ty v)) := by
   arm; simp only [divmod, show (NodeKind.ND_MOD == NodeKind.ND_DIV) = false from rfl, Bool.false_eq_true, ite_false]
 
 theorem eval2_NEG (hf : isFlonum ty = false) :
-    eval2 h fp (.mk .ND_NEG ty nv l r c t e) label
+    eval2 h fp (.mk .ND_NEG ty nv fv l r c t e) label
       = ((eval2 h fp l false >>= fun a => negS h a) >>= fun v => pure (wrapTy ty v)) := by arm
 
 theorem eval2_BITAND (hf : isFlonum ty = false) :
-    eval2 h fp (.mk .ND_BITAND ty nv l r c t e) label
+    eval2 h fp (.mk .ND_BITAND ty nv fv l r c t e) label
       = ((eval2 h fp l false >>= fun a => eval2 h fp r false >>= fun b => pure (a &&& b)) >>= fun v => pure (wrapTy ty v)) := by arm
 
 theorem eval2_BITOR (hf : isFlonum ty = false) :
-    eval2 h fp (.mk .ND_BITOR ty nv l r c t e) label
+    eval2 h fp (.mk .ND_BITOR ty nv fv l r c t e) label
       = ((eval2 h fp l false >>= fun a => eval2 h fp r false >>= fun b => pure (a ||| b)) >>= fun v => pure (wrapTy ty v)) := by arm
 
 theorem eval2_BITXOR (hf : isFlonum ty = false) :
-    eval2 h fp (.mk .ND_BITXOR ty nv l r c t e) label
+    eval2 h fp (.mk .ND_BITXOR ty nv fv l r c t e) label
       = ((eval2 h fp l false >>= fun a => eval2 h fp r false >>= fun b => pure (a ^^^ b)) >>= fun v => pure (wrapTy ty v)) := by arm
 
 theorem eval2_SHL (hf : isFlonum ty = false) :
-    eval2 h fp (.mk .ND_SHL ty nv l r c t e) label
+    eval2 h fp (.mk .ND_SHL ty nv fv l r c t e) label
       = ((eval2 h fp l false >>= fun a => eval2 h fp r false >>= fun b => shlS h a b.toInt) >>= fun v => pure (wrapTy ty v)) := by arm
 
 theorem eval2_SHR (hf : isFlonum ty = false) :
-    eval2 h fp (.mk .ND_SHR ty nv l r c t e) label
+    eval2 h fp (.mk .ND_SHR ty nv fv l r c t e) label
       = ((eval2 h fp l false >>= fun a => eval2 h fp r false >>= fun b =>
             if (ty.isUnsigned && (ty.size == (8#32))) then shrU h a b.toInt else shrS h a b.toInt) >>= fun v => pure (wrapTy ty v)) := by
   arm; split <;> rfl
 
-/-- comparison arms: `cmpU`/`cmpS` are the unsigned / signed host comparisons; EQ and NE do not look at signedness -/
-def cmpArm (h : HostMode) (fp : FpEnv) (op : String) (cu cs : BitVec 64 → BitVec 64 → Bool) (l r : CNode) : Except Fail (BitVec 64) :=
+/-- comparison arms: `cf` is the host comparison of two long doubles (floating operands), `cu`/`cs` are the unsigned / signed
+    host comparisons of two `int64_t`; EQ and NE do not look at signedness.  The left operand is evaluated first. -/
+def cmpArm (h : HostMode) (fp : FpEnv) (cf : BitVec 80 → BitVec 80 → Bool) (cu cs : BitVec 64 → BitVec 64 → Bool) (l r : CNode) : Except Fail (BitVec 64) :=
   (CNode.tyOf l) >>= fun tl =>
-    if isFlonum tl then (fp.cmp op l r >>= fun b => pure (castS 64 (b2i b)))
+    if isFlonum tl then (evalDouble h fp l >>= fun a => evalDouble h fp r >>= fun b => pure (castS 64 (b2i (cf a b))))
     else if tl.isUnsigned then (eval2 h fp l false >>= fun a => eval2 h fp r false >>= fun b => pure (castS 64 (b2i (cu a b))))
     else (eval2 h fp l false >>= fun a => eval2 h fp r false >>= fun b => pure (castS 64 (b2i (cs a b))))
 
 theorem eval2_EQ (hf : isFlonum ty = false) :
-    eval2 h fp (.mk .ND_EQ ty nv l r c t e) label
-      = (cmpArm h fp "==" (· == ·) (· == ·) l r >>= fun v => pure (wrapTy ty v)) := by
+    eval2 h fp (.mk .ND_EQ ty nv fv l r c t e) label
+      = (cmpArm h fp fp.eq80 (· == ·) (· == ·) l r >>= fun v => pure (wrapTy ty v)) := by
   arm; simp only [cmpArm]; congr 1; congr 1; funext tl; split <;> simp
 
 theorem eval2_NE (hf : isFlonum ty = false) :
-    eval2 h fp (.mk .ND_NE ty nv l r c t e) label
-      = (cmpArm h fp "!=" (· != ·) (· != ·) l r >>= fun v => pure (wrapTy ty v)) := by
+    eval2 h fp (.mk .ND_NE ty nv fv l r c t e) label
+      = (cmpArm h fp (fun a b => !(fp.eq80 a b)) (· != ·) (· != ·) l r >>= fun v => pure (wrapTy ty v)) := by
   arm; simp only [cmpArm]; congr 1; congr 1; funext tl; split <;> simp
 
 theorem eval2_LT (hf : isFlonum ty = false) :
-    eval2 h fp (.mk .ND_LT ty nv l r c t e) label
-      = (cmpArm h fp "<" BitVec.ult BitVec.slt l r >>= fun v => pure (wrapTy ty v)) := by
+    eval2 h fp (.mk .ND_LT ty nv fv l r c t e) label
+      = (cmpArm h fp fp.lt80 BitVec.ult BitVec.slt l r >>= fun v => pure (wrapTy ty v)) := by
   arm; simp only [cmpArm]; congr 1
   cases l with
   | null => rfl
-  | mk k2 t2 v2 a2 b2 c2 d2 e2 =>
+  | mk k2 t2 v2 f2 a2 b2 c2 d2 e2 =>
     simp only [CNode.tyOf, bind, Except.bind]
+    split
+    · rfl
+    · cases eval2 h fp (CNode.mk k2 t2 v2 f2 a2 b2 c2 d2 e2) false <;> (cases t2.isUnsigned <;> rfl)
 
 theorem eval2_LE (hf : isFlonum ty = false) :
-    eval2 h fp (.mk .ND_LE ty nv l r c t e) label
-      = (cmpArm h fp "<=" BitVec.ule BitVec.sle l r >>= fun v => pure (wrapTy ty v)) := by
+    eval2 h fp (.mk .ND_LE ty nv fv l r c t e) label
+      = (cmpArm h fp fp.le80 BitVec.ule BitVec.sle l r >>= fun v => pure (wrapTy ty v)) := by
   arm; simp only [cmpArm]; congr 1
   cases l with
   | null => rfl
-  | mk k2 t2 v2 a2 b2 c2 d2 e2 =>
+  | mk k2 t2 v2 f2 a2 b2 c2 d2 e2 =>
     simp only [CNode.tyOf, bind, Except.bind]
+    split
+    · rfl
+    · cases eval2 h fp (CNode.mk k2 t2 v2 f2 a2 b2 c2 d2 e2) false <;> (cases t2.isUnsigned <;> rfl)
 
 theorem eval2_COND (hf : isFlonum ty = false) :
-    eval2 h fp (.mk .ND_COND ty nv l r c t e) label
+    eval2 h fp (.mk .ND_COND ty nv fv l r c t e) label
       = ((truth h fp c >>= fun b => if b then eval2 h fp t label else eval2 h fp e label) >>= fun v => pure (wrapTy ty v)) := by
   arm; rfl
 
 theorem eval2_COMMA (hf : isFlonum ty = false) :
-    eval2 h fp (.mk .ND_COMMA ty nv l r c t e) label
+    eval2 h fp (.mk .ND_COMMA ty nv fv l r c t e) label
       = (eval2 h fp r label >>= fun v => pure (wrapTy ty v)) := by arm
 
 theorem eval2_NOT (hf : isFlonum ty = false) :
-    eval2 h fp (.mk .ND_NOT ty nv l r c t e) label
+    eval2 h fp (.mk .ND_NOT ty nv fv l r c t e) label
       = ((truth h fp l >>= fun b => pure (castS 64 (b2i (!b)))) >>= fun v => pure (wrapTy ty v)) := by
   arm; rfl
 
 theorem eval2_BITNOT (hf : isFlonum ty = false) :
-    eval2 h fp (.mk .ND_BITNOT ty nv l r c t e) label
+    eval2 h fp (.mk .ND_BITNOT ty nv fv l r c t e) label
       = ((eval2 h fp l false >>= fun a => pure (~~~a)) >>= fun v => pure (wrapTy ty v)) := by arm
 
 theorem eval2_LOGAND (hf : isFlonum ty = false) :
-    eval2 h fp (.mk .ND_LOGAND ty nv l r c t e) label
+    eval2 h fp (.mk .ND_LOGAND ty nv fv l r c t e) label
       = ((truth h fp l >>= fun a => (if a then truth h fp r else pure false) >>= fun b => pure (castS 64 (b2i b))) >>= fun v => pure (wrapTy ty v)) := by
   arm; rfl
 
 theorem eval2_LOGOR (hf : isFlonum ty = false) :
-    eval2 h fp (.mk .ND_LOGOR ty nv l r c t e) label
+    eval2 h fp (.mk .ND_LOGOR ty nv fv l r c t e) label
       = ((truth h fp l >>= fun a => (if a then pure true else truth h fp r) >>= fun b => pure (castS 64 (b2i b))) >>= fun v => pure (wrapTy ty v)) := by
   arm; rfl
 
 theorem eval2_CAST (hf : isFlonum ty = false) :
-    eval2 h fp (.mk .ND_CAST ty nv l r c t e) label
+    eval2 h fp (.mk .ND_CAST ty nv fv l r c t e) label
       = ((if ty.kind == TypeKind.TY_BOOL then
             (CNode.tyOf l) >>= fun tl =>
-              if isFlonum tl then (fp.neZero l >>= fun b => pure (castS 64 (b2i b)))
+              if isFlonum tl then (fpTruth h fp l >>= fun b => pure (castS 64 (b2i b)))
               else (eval2 h fp l label >>= fun a => pure (castS 64 (b2i (a != (0#64)))))
-          else eval2 h fp l label) >>= fun v => pure (wrapTy ty v)) := by
-  arm
+          else
+            (CNode.tyOf l) >>= fun tl =>
+              if (isFlonum tl && ty.isUnsigned) && (ty.size == (8#32)) then (evalDouble h fp l >>= fun d => cvtU64 h fp d)
+              else eval2 h fp l label) >>= fun v => pure (wrapTy ty v)) := by
+  arm; simp only [fpTruth, bind_assoc, pure_bind]
 
 theorem eval2_NUM (hf : isFlonum ty = false) :
-    eval2 h fp (.mk .ND_NUM ty nv l r c t e) label = pure (wrapTy ty nv) := by
+    eval2 h fp (.mk .ND_NUM ty nv fv l r c t e) label = pure (wrapTy ty nv) := by
   arm; rfl
+
+/-! ## The generated `evalDouble`, arm by arm -/
+
+theorem flonum_not_integer (ty : CTy) (hf : isFlonum ty = true) : isInteger ty = false := by
+  obtain ⟨k, s, u⟩ := ty
+  cases k <;> simp_all [isFlonum, isInteger]
+
+theorem integer_not_flonum (ty : CTy) (hi : isInteger ty = true) : isFlonum ty = false := by
+  cases hf : isFlonum ty
+  · rfl
+  · rw [flonum_not_integer ty hf] at hi; cases hi
+
+/-- `eval_double`'s final conversion of the folded `long double` to the format of the node's type -/
+def roundTy (fp : FpEnv) (ty : CTy) (v : BitVec 80) : BitVec 80 :=
+  if ty.kind == TypeKind.TY_FLOAT then fp.f32to80 (fp.f80to32 v)
+  else if ty.kind == TypeKind.TY_DOUBLE then fp.f64to80 (fp.f80to64 v)
+  else v
+
+/-- the rounding exactly as generated -/
+def roundM (fp : FpEnv) (ty : CTy) (v_val : BitVec 80) : Except Fail (BitVec 80) :=
+    if (ty.kind == TypeKind.TY_FLOAT) then
+      pure (fp.f32to80 (fp.f80to32 v_val))
+    else
+      if (ty.kind == TypeKind.TY_DOUBLE) then
+      pure (fp.f64to80 (fp.f80to64 v_val))
+    else
+      pure v_val
+
+theorem roundM_eq (fp : FpEnv) (ty : CTy) (v : BitVec 80) : roundM fp ty v = pure (roundTy fp ty v) := by
+  unfold roundM roundTy; (repeat' split) <;> rfl
+
+theorem roundK (fp : FpEnv) (ty : CTy) : roundM fp ty = fun v => pure (roundTy fp ty v) := funext (roundM_eq fp ty)
+
+/-- `FOLD_FLONUM(op)`: the operation carried out in the format of the node's type -/
+def foldFlonum (fp : FpEnv) (ty : CTy) (o32 : BitVec 32 → BitVec 32 → BitVec 32) (o64 : BitVec 64 → BitVec 64 → BitVec 64)
+    (o80 : BitVec 80 → BitVec 80 → BitVec 80) (a b : BitVec 80) : BitVec 80 :=
+  if ty.kind == TypeKind.TY_FLOAT then fp.f32to80 (o32 (fp.f80to32 a) (fp.f80to32 b))
+  else if ty.kind == TypeKind.TY_DOUBLE then fp.f64to80 (o64 (fp.f80to64 a) (fp.f80to64 b))
+  else o80 a b
+
+/-- a node of integer type: `eval_double` is the conversion of `eval(node)` to `long double` -/
+theorem evalDouble_integer (k : NodeKind) (hi : isInteger ty = true) :
+    evalDouble h fp (.mk k ty nv fv l r c t e)
+      = (eval2 h fp (.mk k ty nv fv l r c t e) false >>= fun v => pure (if ty.isUnsigned then fp.u64to80 v else fp.i64to80 v)) := by
+  have hf := integer_not_flonum ty hi
+  rw [evalDouble.eq_def, eval2.eq_def]
+  simp only [hi, hf, ite_true, Bool.false_eq_true, ite_false]
+  split <;> rfl
+
+/-- a node of floating type: `eval2` is the conversion of `eval_double(node)` to `int64_t` -/
+theorem eval2_flonum (k : NodeKind) (hf : isFlonum ty = true) :
+    eval2 h fp (.mk k ty nv fv l r c t e) label = (evalDouble h fp (.mk k ty nv fv l r c t e) >>= fun d => cvtI64 h fp d) := by
+  have hi := flonum_not_integer ty hf
+  rw [eval2.eq_def, evalDouble.eq_def]
+  simp only [hf, hi, ite_true, Bool.false_eq_true, ite_false]
+  exact bind_pure _
+
+/-- unfolds `evalDouble (mk K ..)` (K a constructor, `hi : isInteger ty = false` in the context) to
+    `raw >>= fun v => pure (roundTy fp ty v)` -/
+macro "darm" : tactic =>
+  `(tactic| (rw [evalDouble.eq_def]; simp only [*, Bool.false_eq_true, ite_false]; change (_ >>= roundM _ _) = _; rw [roundK]))
+
+theorem evalDouble_null : evalDouble h fp .null = .error (.crash "NULL node dereferenced") := by rw [evalDouble.eq_def]
+
+theorem evalDouble_ADD (hi : isInteger ty = false) :
+    evalDouble h fp (.mk .ND_ADD ty nv fv l r c t e)
+      = ((evalDouble h fp l >>= fun a => evalDouble h fp r >>= fun b => pure (foldFlonum fp ty fp.add32 fp.add64 fp.add80 a b))
+          >>= fun v => pure (roundTy fp ty v)) := by darm; rfl
+
+theorem evalDouble_SUB (hi : isInteger ty = false) :
+    evalDouble h fp (.mk .ND_SUB ty nv fv l r c t e)
+      = ((evalDouble h fp l >>= fun a => evalDouble h fp r >>= fun b => pure (foldFlonum fp ty fp.sub32 fp.sub64 fp.sub80 a b))
+          >>= fun v => pure (roundTy fp ty v)) := by darm; rfl
+
+theorem evalDouble_MUL (hi : isInteger ty = false) :
+    evalDouble h fp (.mk .ND_MUL ty nv fv l r c t e)
+      = ((evalDouble h fp l >>= fun a => evalDouble h fp r >>= fun b => pure (foldFlonum fp ty fp.mul32 fp.mul64 fp.mul80 a b))
+          >>= fun v => pure (roundTy fp ty v)) := by darm; rfl
+
+theorem evalDouble_DIV (hi : isInteger ty = false) :
+    evalDouble h fp (.mk .ND_DIV ty nv fv l r c t e)
+      = ((evalDouble h fp l >>= fun a => evalDouble h fp r >>= fun b => pure (foldFlonum fp ty fp.div32 fp.div64 fp.div80 a b))
+          >>= fun v => pure (roundTy fp ty v)) := by darm; rfl
+
+theorem evalDouble_NEG (hi : isInteger ty = false) :
+    evalDouble h fp (.mk .ND_NEG ty nv fv l r c t e)
+      = ((evalDouble h fp l >>= fun a => pure (fp.neg80 a)) >>= fun v => pure (roundTy fp ty v)) := by darm
+
+theorem evalDouble_COND (hi : isInteger ty = false) :
+    evalDouble h fp (.mk .ND_COND ty nv fv l r c t e)
+      = ((fpTruth h fp c >>= fun b => if b then evalDouble h fp t else evalDouble h fp e) >>= fun v => pure (roundTy fp ty v)) := by
+  darm; simp only [fpTruth, bind_assoc, pure_bind]
+
+theorem evalDouble_COMMA (hi : isInteger ty = false) :
+    evalDouble h fp (.mk .ND_COMMA ty nv fv l r c t e) = (evalDouble h fp r >>= fun v => pure (roundTy fp ty v)) := by darm
+
+theorem evalDouble_CAST (hi : isInteger ty = false) :
+    evalDouble h fp (.mk .ND_CAST ty nv fv l r c t e) = (evalDouble h fp l >>= fun v => pure (roundTy fp ty v)) := by darm
+
+theorem evalDouble_NUM (hi : isInteger ty = false) :
+    evalDouble h fp (.mk .ND_NUM ty nv fv l r c t e) = pure (roundTy fp ty fv) := by darm; rfl
+
+/-- the kinds `eval_double2` folds -/
+def fkinds : List NodeKind := [.ND_ADD, .ND_SUB, .ND_MUL, .ND_DIV, .ND_NEG, .ND_COND, .ND_COMMA, .ND_CAST, .ND_NUM]
+
+/-- every other kind of a node of non-integer type is "not a compile-time constant" -/
+theorem evalDouble_other (k : NodeKind) (hk : k ∉ fkinds) (hi : isInteger ty = false) :
+    evalDouble h fp (.mk k ty nv fv l r c t e) = .error (.diag "not a compile-time constant") := by
+  cases k <;> first | (exfalso; exact hk (by decide)) | (darm; rfl)
 
 /-! ## The int64 image of a mathematical value, and the wrapper as the C11 conversion -/
 
@@ -306,7 +430,7 @@ theorem gct_int (a : ITy) : getCommonType tyInt (descr a) = descr a.promote := b
 
 theorem common_promote (a : ITy) : ITy.common .i32 a = a.promote := by cases a <;> rfl
 
-@[simp] theorem nodeTy_mk (k : NodeKind) (ty : CTy) (v : BitVec 64) (a b c d e : CNode) : nodeTy (.mk k ty v a b c d e) = ty := rfl
+@[simp] theorem nodeTy_mk (k : NodeKind) (ty : CTy) (v : BitVec 64) (fv : BitVec 80) (a b c d e : CNode) : nodeTy (.mk k ty v fv a b c d e) = ty := rfl
 
 theorem elab_ty (e : CExpr) : nodeTy (elabE e) = descr (typeOf e) := by
   induction e with
@@ -350,7 +474,7 @@ theorem eval2_mkCast (fp : FpEnv) (n : CNode) (t : ITy) (x : Int) (label : Bool)
     (hnf : isFlonum (nodeTy n) = false) :
     eval2 .wrapping fp (mkCast n (descr t)) label = .ok (img (t.convert x)) := by
   simp only [mkCast, un]
-  rw [eval2_CAST _ _ _ _ _ _ _ _ _ _ (descr_not_flonum t)]
+  rw [eval2_CAST _ _ _ _ _ _ _ _ _ _ _ (descr_not_flonum t)]
   by_cases hb : t = .bool
   · subst hb
     have hz := img_eq_zero_iff x hx.1 hx.2
@@ -364,7 +488,7 @@ theorem eval2_mkCast (fp : FpEnv) (n : CNode) (t : ITy) (x : Int) (label : Bool)
     rw [this]
     exact congrArg Except.ok (wrap_bool01 _)
   · have hk : ((descr t).kind == TypeKind.TY_BOOL) = false := by cases t <;> first | rfl | exact absurd rfl hb
-    simp only [hk, Bool.false_eq_true, ite_false, hn, bind, Except.bind, pure, Except.pure]
+    simp only [hk, Bool.false_eq_true, ite_false, tyOf_of_eval hn, hnf, Bool.false_and, hn, bind, Except.bind, pure, Except.pure]
     exact congrArg Except.ok (wrap_convert t hb x)
 
 /-! ## Host operators on images -/
@@ -476,7 +600,7 @@ theorem fold_add (ht : t ≠ .bool)
     eval2 .wrapping fp (bin .ND_ADD (descr t) l r) label = .ok (img v) ∧ t.inRange v = true := by
   have ⟨h1, h2⟩ := arm_result t ht (img x + img y) (x + y) v (img_add x y) hv
   refine ⟨?_, h2⟩
-  simp only [bin]; rw [eval2_ADD _ _ _ _ _ _ _ _ _ _ (descr_not_flonum t)]
+  simp only [bin]; rw [eval2_ADD _ _ _ _ _ _ _ _ _ _ _ (descr_not_flonum t)]
   simp only [hl, hr, bind, Except.bind, pure, Except.pure, addS, ovf, h1]
 
 theorem fold_sub (ht : t ≠ .bool)
@@ -485,7 +609,7 @@ theorem fold_sub (ht : t ≠ .bool)
     eval2 .wrapping fp (bin .ND_SUB (descr t) l r) label = .ok (img v) ∧ t.inRange v = true := by
   have ⟨h1, h2⟩ := arm_result t ht (img x - img y) (x - y) v (img_sub x y) hv
   refine ⟨?_, h2⟩
-  simp only [bin]; rw [eval2_SUB _ _ _ _ _ _ _ _ _ _ (descr_not_flonum t)]
+  simp only [bin]; rw [eval2_SUB _ _ _ _ _ _ _ _ _ _ _ (descr_not_flonum t)]
   simp only [hl, hr, bind, Except.bind, pure, Except.pure, subS, ovf, h1]
 
 theorem fold_mul (ht : t ≠ .bool)
@@ -494,7 +618,7 @@ theorem fold_mul (ht : t ≠ .bool)
     eval2 .wrapping fp (bin .ND_MUL (descr t) l r) label = .ok (img v) ∧ t.inRange v = true := by
   have ⟨h1, h2⟩ := arm_result t ht (img x * img y) (x * y) v (img_mul x y) hv
   refine ⟨?_, h2⟩
-  simp only [bin]; rw [eval2_MUL _ _ _ _ _ _ _ _ _ _ (descr_not_flonum t)]
+  simp only [bin]; rw [eval2_MUL _ _ _ _ _ _ _ _ _ _ _ (descr_not_flonum t)]
   simp only [hl, hr, bind, Except.bind, pure, Except.pure, mulS, ovf, h1]
 
 
@@ -587,7 +711,7 @@ theorem fold_div (hw : Wide t)
   · rename_i hy0
     have ⟨h1, h2⟩ := arm_result t hw.ne_bool (img (x.tdiv y)) (x.tdiv y) v rfl hv
     refine ⟨?_, h2⟩
-    simp only [bin]; rw [eval2_DIV _ _ _ _ _ _ _ _ _ _ (descr_not_flonum t)]
+    simp only [bin]; rw [eval2_DIV _ _ _ _ _ _ _ _ _ _ _ (descr_not_flonum t)]
     simp only [hl, hr, bind, Except.bind, pure, Except.pure, divmod_div t x y hw hx hy hy0, h1]
 
 theorem tmod_inRange (hw : Wide t) (hx : t.inRange x = true) (hy : t.inRange y = true) : t.inRange (x.tmod y) = true := by
@@ -613,7 +737,7 @@ theorem fold_mod (hw : Wide t)
     · cases hv
       have hr' := tmod_inRange t x y hw hx hy
       refine ⟨?_, hr'⟩
-      simp only [bin]; rw [eval2_MOD _ _ _ _ _ _ _ _ _ _ (descr_not_flonum t)]
+      simp only [bin]; rw [eval2_MOD _ _ _ _ _ _ _ _ _ _ _ (descr_not_flonum t)]
       simp only [hl, hr, bind, Except.bind, pure, Except.pure, divmod_mod t x y hw hx hy hy0,
         wrap_convert t hw.ne_bool, convert_id t _ hr']
 
@@ -631,7 +755,7 @@ theorem fold_band (ht : t ≠ .bool)
   simp only [binop] at hv; cases hv
   have ⟨h1, h2⟩ := fold_bitwise t x y (· &&& ·) ht
   refine ⟨?_, h2⟩
-  simp only [bin]; rw [eval2_BITAND _ _ _ _ _ _ _ _ _ _ (descr_not_flonum t)]
+  simp only [bin]; rw [eval2_BITAND _ _ _ _ _ _ _ _ _ _ _ (descr_not_flonum t)]
   simp only [hl, hr, bind, Except.bind, pure, Except.pure, h1]
 
 theorem fold_bor (ht : t ≠ .bool)
@@ -641,7 +765,7 @@ theorem fold_bor (ht : t ≠ .bool)
   simp only [binop] at hv; cases hv
   have ⟨h1, h2⟩ := fold_bitwise t x y (· ||| ·) ht
   refine ⟨?_, h2⟩
-  simp only [bin]; rw [eval2_BITOR _ _ _ _ _ _ _ _ _ _ (descr_not_flonum t)]
+  simp only [bin]; rw [eval2_BITOR _ _ _ _ _ _ _ _ _ _ _ (descr_not_flonum t)]
   simp only [hl, hr, bind, Except.bind, pure, Except.pure, h1]
 
 theorem fold_bxor (ht : t ≠ .bool)
@@ -651,7 +775,7 @@ theorem fold_bxor (ht : t ≠ .bool)
   simp only [binop] at hv; cases hv
   have ⟨h1, h2⟩ := fold_bitwise t x y (· ^^^ ·) ht
   refine ⟨?_, h2⟩
-  simp only [bin]; rw [eval2_BITXOR _ _ _ _ _ _ _ _ _ _ (descr_not_flonum t)]
+  simp only [bin]; rw [eval2_BITXOR _ _ _ _ _ _ _ _ _ _ _ (descr_not_flonum t)]
   simp only [hl, hr, bind, Except.bind, pure, Except.pure, h1]
 
 
@@ -681,7 +805,7 @@ variable (fp : FpEnv) (t : ITy) (l r : CNode) (x y v : Int) (label : Bool)
 theorem fold_shl (hw : Wide t)
     (hl : ∀ lab, eval2 .wrapping fp l lab = .ok (img x)) (hr : ∀ lab, eval2 .wrapping fp r lab = .ok (img y))
     (hx : t.inRange x = true) (hv : binop .shl t x y = some v) :
-    eval2 .wrapping fp (.mk .ND_SHL (descr t) 0 l r .null .null .null) label = .ok (img v) ∧ t.inRange v = true := by
+    eval2 .wrapping fp (.mk .ND_SHL (descr t) 0 0 l r .null .null .null) label = .ok (img v) ∧ t.inRange v = true := by
   simp only [binop] at hv
   split at hv
   · cases hv
@@ -707,13 +831,13 @@ theorem fold_shl (hw : Wide t)
         · have := convert_inRange t (x * 2 ^ y.toNat)
           rcases hw with h | h | h | h <;> subst h <;> simp_all [ITy.convert, ITy.signed, ITy.bits]
     refine ⟨?_, hres.2⟩
-    rw [eval2_SHL _ _ _ _ _ _ _ _ _ _ (descr_not_flonum t)]
+    rw [eval2_SHL _ _ _ _ _ _ _ _ _ _ _ (descr_not_flonum t)]
     simp only [hl, hr, bind, Except.bind, pure, Except.pure, hraw, hres.1]
 
 theorem fold_shr (hw : Wide t)
     (hl : ∀ lab, eval2 .wrapping fp l lab = .ok (img x)) (hr : ∀ lab, eval2 .wrapping fp r lab = .ok (img y))
     (hx : t.inRange x = true) (hv : binop .shr t x y = some v) :
-    eval2 .wrapping fp (.mk .ND_SHR (descr t) 0 l r .null .null .null) label = .ok (img v) ∧ t.inRange v = true := by
+    eval2 .wrapping fp (.mk .ND_SHR (descr t) 0 0 l r .null .null .null) label = .ok (img v) ∧ t.inRange v = true := by
   simp only [binop] at hv
   split at hv
   · cases hv
@@ -724,7 +848,7 @@ theorem fold_shr (hw : Wide t)
     have hcnt : (img y).toInt = y := img_toInt y (by omega) (by omega)
     have hin := shift_inRange t hw x y.toNat hx
     refine ⟨?_, hin⟩
-    rw [eval2_SHR _ _ _ _ _ _ _ _ _ _ (descr_not_flonum t)]
+    rw [eval2_SHR _ _ _ _ _ _ _ _ _ _ _ (descr_not_flonum t)]
     simp only [hl, hr, bind, Except.bind, pure, Except.pure, hcnt]
     have hwr := wrap_convert t hw.ne_bool (x / 2 ^ y.toNat)
     rw [convert_id t _ hin] at hwr
@@ -771,7 +895,7 @@ theorem cmp_images (hw : Wide t) (hx : t.inRange x = true) (hy : t.inRange y = t
     constructor <;> apply decide_eq_decide.2 <;> omega
 
 /-- the comparison arm on two operands cast to the wide type `t` -/
-theorem cmpArm_ok (op : String) (cu cs : BitVec 64 → BitVec 64 → Bool) (b : Bool)
+theorem cmpArm_ok (op : BitVec 80 → BitVec 80 → Bool) (cu cs : BitVec 64 → BitVec 64 → Bool) (b : Bool)
     (hlt : CNode.tyOf l = .ok (descr t))
     (hl : ∀ lab, eval2 .wrapping fp l lab = .ok (img x)) (hr : ∀ lab, eval2 .wrapping fp r lab = .ok (img y))
     (hb : (if (descr t).isUnsigned then cu (img x) (img y) else cs (img x) (img y)) = b) :
@@ -825,7 +949,7 @@ theorem fold_lit (t : ITy) (v x : Int) (h : Spec.Const.eval (.lit t v) = some x)
   · cases h; rename_i hin
     refine ⟨hin, fun lab => ?_⟩
     simp only [elabE]
-    rw [eval2_NUM _ _ _ _ _ _ _ _ _ _ (descr_not_flonum t)]
+    rw [eval2_NUM _ _ _ _ _ _ _ _ _ _ _ (descr_not_flonum t)]
     by_cases hb : t = .bool
     · subst hb; rng
       have : v = 0 ∨ v = 1 := by omega
@@ -840,7 +964,7 @@ theorem fold_neg {e : CExpr} {x v : Int} (h : Folds fp e x) (hv : Spec.Const.ari
   have ⟨h1, h2⟩ := arm_result _ hw.ne_bool (-(img x)) (-x) v (img_neg x) hv
   refine ⟨h2, fun lab => ?_⟩
   simp only [elabE, mkPromoted, elab_ty, gct_int]
-  rw [eval2_NEG _ _ _ _ _ _ _ _ _ _ (descr_not_flonum _)]
+  rw [eval2_NEG _ _ _ _ _ _ _ _ _ _ _ (descr_not_flonum _)]
   simp only [cast_ok fp _ h, convert_id _ _ hp, bind, Except.bind, pure, Except.pure, negS, ovf, h1]
 
 theorem fold_bitnot {e : CExpr} {x : Int} (h : Folds fp e x) :
@@ -849,14 +973,14 @@ theorem fold_bitnot {e : CExpr} {x : Int} (h : Folds fp e x) :
   have hw := promote_wide (typeOf e)
   refine ⟨convert_inRange _ _, fun lab => ?_⟩
   simp only [elabE, mkPromoted, elab_ty, gct_int]
-  rw [eval2_BITNOT _ _ _ _ _ _ _ _ _ _ (descr_not_flonum _)]
+  rw [eval2_BITNOT _ _ _ _ _ _ _ _ _ _ _ (descr_not_flonum _)]
   simp only [cast_ok fp _ h, convert_id _ _ hp, bind, Except.bind, pure, Except.pure]
   rw [← wrap_convert _ hw.ne_bool, ← img_of_toInt]
 
 theorem fold_lognot {e : CExpr} {x : Int} (h : Folds fp e x) : Folds fp (.un .lognot e) (b2z (x == 0)) := by
   refine ⟨by cases (x == 0) <;> rfl, fun lab => ?_⟩
   simp only [elabE, un]
-  rw [eval2_NOT _ _ _ _ _ _ _ _ _ _ (show isFlonum tyInt = false from rfl)]
+  rw [eval2_NOT _ _ _ _ _ _ _ _ _ _ _ (show isFlonum tyInt = false from rfl)]
   rw [truth_ok fp x (elabE e) h.2 (inRange_wide _ x h.1) (by rw [elab_ty]; exact descr_not_flonum _)]
   simp only [bind, Except.bind, pure, Except.pure, b2i_castS]
   have : (!(x != 0)) = (x == 0) := by cases hx : (x == 0) <;> simp_all [bne]
@@ -922,13 +1046,13 @@ theorem fold_bin_shift {a b : CExpr} {x y v : Int} (op : BinOp) (k : NodeKind)
     (typeOf a).promote.inRange v = true ∧ ∀ lab, eval2 .wrapping fp (mkPromoted k (elabE a) (elabE b)) lab = .ok (img v) := by
   have hw := promote_wide (typeOf a)
   have hp := promote_inRange _ x ha.1
-  have e : mkPromoted k (elabE a) (elabE b) = .mk k (descr (typeOf a).promote) 0 (mkCast (elabE a) (descr (typeOf a).promote))
+  have e : mkPromoted k (elabE a) (elabE b) = .mk k (descr (typeOf a).promote) 0 0 (mkCast (elabE a) (descr (typeOf a).promote))
       (elabE b) .null .null .null := by simp only [mkPromoted, elab_ty, gct_int]
   rw [e]
   have hl := cast_ok fp (typeOf a).promote ha
   rw [convert_id _ _ hp] at hl
   simp only [List.mem_cons, Prod.mk.injEq, List.mem_nil_iff, or_false] at hop
-  have key : ∀ lab, eval2 .wrapping fp (.mk k (descr (typeOf a).promote) 0 (mkCast (elabE a) (descr (typeOf a).promote))
+  have key : ∀ lab, eval2 .wrapping fp (.mk k (descr (typeOf a).promote) 0 0 (mkCast (elabE a) (descr (typeOf a).promote))
       (elabE b) .null .null .null) lab = .ok (img v) ∧ (typeOf a).promote.inRange v = true := fun lab => by
     rcases hop with ⟨h1, h2⟩ | ⟨h1, h2⟩ <;> subst h1 h2
     · exact fold_shl fp _ _ _ x y v lab hw hl hb.2 hp hv
@@ -936,10 +1060,10 @@ theorem fold_bin_shift {a b : CExpr} {x y v : Int} (op : BinOp) (k : NodeKind)
   exact ⟨(key false).2, fun lab => (key lab).1⟩
 
 /-- a comparison node over two expressions: both converted to the common type `t`, result `int` -/
-theorem fold_cmp_gen {a b : CExpr} {x y : Int} (k : NodeKind) (op : String) (cu cs : BitVec 64 → BitVec 64 → Bool) (res : Bool)
+theorem fold_cmp_gen {a b : CExpr} {x y : Int} (k : NodeKind) (op : BitVec 80 → BitVec 80 → Bool) (cu cs : BitVec 64 → BitVec 64 → Bool) (res : Bool)
     (ha : Folds fp a x) (hb : Folds fp b y)
-    (harm : ∀ (ty : CTy) (nv : BitVec 64) (l r c t e : CNode) (label : Bool), isFlonum ty = false →
-        eval2 .wrapping fp (.mk k ty nv l r c t e) label = (cmpArm .wrapping fp op cu cs l r >>= fun v => pure (wrapTy ty v)))
+    (harm : ∀ (ty : CTy) (nv : BitVec 64) (fv : BitVec 80) (l r c t e : CNode) (label : Bool), isFlonum ty = false →
+        eval2 .wrapping fp (.mk k ty nv fv l r c t e) label = (cmpArm .wrapping fp op cu cs l r >>= fun v => pure (wrapTy ty v)))
     (hres : (if (descr (ITy.common (typeOf a) (typeOf b))).isUnsigned
               then cu (img ((ITy.common (typeOf a) (typeOf b)).convert x)) (img ((ITy.common (typeOf a) (typeOf b)).convert y))
               else cs (img ((ITy.common (typeOf a) (typeOf b)).convert x)) (img ((ITy.common (typeOf a) (typeOf b)).convert y))) = res) :
@@ -948,7 +1072,7 @@ theorem fold_cmp_gen {a b : CExpr} {x y : Int} (k : NodeKind) (op : String) (cu 
   have e : mkCompare k (elabE a) (elabE b) = bin k tyInt (mkCast (elabE a) (descr (ITy.common (typeOf a) (typeOf b))))
       (mkCast (elabE b) (descr (ITy.common (typeOf a) (typeOf b)))) := by simp only [mkCompare, elab_ty, gct_descr]
   rw [e]; simp only [bin]
-  rw [harm _ _ _ _ _ _ _ _ (show isFlonum tyInt = false from rfl)]
+  rw [harm _ _ _ _ _ _ _ _ _ (show isFlonum tyInt = false from rfl)]
   apply fold_cmp_node
   exact cmpArm_ok fp _ _ _ _ _ op cu cs res rfl (cast_ok fp _ ha) (cast_ok fp _ hb) hres
 
@@ -976,36 +1100,36 @@ theorem fold_bin {a b : CExpr} {x y v : Int} (op : BinOp) (ha : Folds fp a x) (h
   case shr => exact fold_bin_shift fp .shr .ND_SHR (by simp) ha hb hv
   case eq =>
     simp only [binop] at hv; cases hv
-    refine ⟨b2z_inRange _, fold_cmp_gen fp .ND_EQ "==" _ _ _ ha hb (fun ty nv l r c t e lab hf => eval2_EQ _ _ _ _ _ _ _ _ _ _ hf) ?_⟩
+    refine ⟨b2z_inRange _, fold_cmp_gen fp .ND_EQ fp.eq80 _ _ _ ha hb (fun ty nv fv l r c t e lab hf => eval2_EQ _ _ _ _ _ _ _ _ _ _ _ hf) ?_⟩
     have := img_inj _ _ _ hw hx' hy'
     simp only [ite_self]
     rw [Bool.eq_iff_iff]; simpa using this
   case ne =>
     simp only [binop] at hv; cases hv
-    refine ⟨b2z_inRange _, fold_cmp_gen fp .ND_NE "!=" _ _ _ ha hb (fun ty nv l r c t e lab hf => eval2_NE _ _ _ _ _ _ _ _ _ _ hf) ?_⟩
+    refine ⟨b2z_inRange _, fold_cmp_gen fp .ND_NE (fun a b => !(fp.eq80 a b)) _ _ _ ha hb (fun ty nv fv l r c t e lab hf => eval2_NE _ _ _ _ _ _ _ _ _ _ _ hf) ?_⟩
     have := img_inj _ _ _ hw hx' hy'
     simp only [ite_self]
     rw [Bool.eq_iff_iff]; simpa using not_congr this
   case lt =>
     simp only [binop] at hv; cases hv
-    exact ⟨b2z_inRange _, fold_cmp_gen fp .ND_LT "<" _ _ _ ha hb (fun ty nv l r c t e lab hf => eval2_LT _ _ _ _ _ _ _ _ _ _ hf)
+    exact ⟨b2z_inRange _, fold_cmp_gen fp .ND_LT fp.lt80 _ _ _ ha hb (fun ty nv fv l r c t e lab hf => eval2_LT _ _ _ _ _ _ _ _ _ _ _ hf)
       (cmp_images _ _ _ hw hx' hy').1⟩
   case le =>
     simp only [binop] at hv; cases hv
-    exact ⟨b2z_inRange _, fold_cmp_gen fp .ND_LE "<=" _ _ _ ha hb (fun ty nv l r c t e lab hf => eval2_LE _ _ _ _ _ _ _ _ _ _ hf)
+    exact ⟨b2z_inRange _, fold_cmp_gen fp .ND_LE fp.le80 _ _ _ ha hb (fun ty nv fv l r c t e lab hf => eval2_LE _ _ _ _ _ _ _ _ _ _ _ hf)
       (cmp_images _ _ _ hw hx' hy').2⟩
   case gt =>
     simp only [binop] at hv; cases hv
     refine ⟨b2z_inRange _, ?_⟩
-    have := fold_cmp_gen fp .ND_LT "<" BitVec.ult BitVec.slt (decide ((ITy.common (typeOf a) (typeOf b)).convert x > (ITy.common (typeOf a) (typeOf b)).convert y))
-      hb ha (fun ty nv l r c t e lab hf => eval2_LT _ _ _ _ _ _ _ _ _ _ hf)
+    have := fold_cmp_gen fp .ND_LT fp.lt80 BitVec.ult BitVec.slt (decide ((ITy.common (typeOf a) (typeOf b)).convert x > (ITy.common (typeOf a) (typeOf b)).convert y))
+      hb ha (fun ty nv fv l r c t e lab hf => eval2_LT _ _ _ _ _ _ _ _ _ _ _ hf)
       (by rw [common_comm (typeOf b) (typeOf a)]; exact (cmp_images _ _ _ hw hy' hx').1)
     exact this
   case ge =>
     simp only [binop] at hv; cases hv
     refine ⟨b2z_inRange _, ?_⟩
-    have := fold_cmp_gen fp .ND_LE "<=" BitVec.ule BitVec.sle (decide ((ITy.common (typeOf a) (typeOf b)).convert x ≥ (ITy.common (typeOf a) (typeOf b)).convert y))
-      hb ha (fun ty nv l r c t e lab hf => eval2_LE _ _ _ _ _ _ _ _ _ _ hf)
+    have := fold_cmp_gen fp .ND_LE fp.le80 BitVec.ule BitVec.sle (decide ((ITy.common (typeOf a) (typeOf b)).convert x ≥ (ITy.common (typeOf a) (typeOf b)).convert y))
+      hb ha (fun ty nv fv l r c t e lab hf => eval2_LE _ _ _ _ _ _ _ _ _ _ _ hf)
       (by rw [common_comm (typeOf b) (typeOf a)]; exact (cmp_images _ _ _ hw hy' hx').2)
     exact this
 
@@ -1017,7 +1141,7 @@ theorem fold_land {a b : CExpr} {x : Int} (ha : Folds fp a x) (res : Bool)
     Folds fp (.land a b) (b2z res) := by
   refine ⟨b2z_inRange _, fun lab => ?_⟩
   simp only [elabE, bin]
-  rw [eval2_LOGAND _ _ _ _ _ _ _ _ _ _ (show isFlonum tyInt = false from rfl), truth_of_folds fp ha]
+  rw [eval2_LOGAND _ _ _ _ _ _ _ _ _ _ _ (show isFlonum tyInt = false from rfl), truth_of_folds fp ha]
   by_cases hx : x = 0
   · subst hx
     simp only [bind, Except.bind, pure, Except.pure, h0 rfl, b2i_castS]
@@ -1032,7 +1156,7 @@ theorem fold_lor {a b : CExpr} {x : Int} (ha : Folds fp a x) (res : Bool)
     Folds fp (.lor a b) (b2z res) := by
   refine ⟨b2z_inRange _, fun lab => ?_⟩
   simp only [elabE, bin]
-  rw [eval2_LOGOR _ _ _ _ _ _ _ _ _ _ (show isFlonum tyInt = false from rfl), truth_of_folds fp ha]
+  rw [eval2_LOGOR _ _ _ _ _ _ _ _ _ _ _ (show isFlonum tyInt = false from rfl), truth_of_folds fp ha]
   by_cases hx : x = 0
   · obtain ⟨y, hy, hr⟩ := hb hx
     subst hx
@@ -1051,7 +1175,7 @@ theorem fold_cond {c a b : CExpr} {x : Int} (hc : Folds fp c x) (v : Int)
   have hw := common_wide (typeOf a) (typeOf b)
   refine ⟨convert_inRange _ _, fun lab => ?_⟩
   simp only [elabE, elab_ty, gct_descr]
-  rw [eval2_COND _ _ _ _ _ _ _ _ _ _ (descr_not_flonum _), truth_of_folds fp hc]
+  rw [eval2_COND _ _ _ _ _ _ _ _ _ _ _ (descr_not_flonum _), truth_of_folds fp hc]
   have hwr := wrap_convert _ hw.ne_bool ((ITy.common (typeOf a) (typeOf b)).convert y)
   rw [convert_id _ _ (convert_inRange _ _)] at hwr
   by_cases hx : x = 0
@@ -1235,12 +1359,13 @@ theorem noTrap_wrap {raw : Except Fail (BitVec 64)} (ty : CTy) (h : NoTrap raw) 
 theorem nt_cast (n : CNode) (ty : ITy) (tn : ITy) (hty : CNode.tyOf n = .ok (descr tn)) (hn : NT fp n) : NT fp (mkCast n (descr ty)) := by
   intro label
   simp only [mkCast, un]
-  rw [eval2_CAST _ _ _ _ _ _ _ _ _ _ (descr_not_flonum ty)]
+  rw [eval2_CAST _ _ _ _ _ _ _ _ _ _ _ (descr_not_flonum ty)]
   apply noTrap_wrap
   apply noTrap_ite
   · simp only [hty, bind, Except.bind, descr_not_flonum, Bool.false_eq_true, ite_false]
     exact noTrap_bind (hn label) (fun _ => noTrap_pure _)
-  · exact hn label
+  · simp only [hty, bind, Except.bind, descr_not_flonum, Bool.false_and, Bool.false_eq_true, ite_false]
+    exact hn label
 
 theorem nt_truth (n : CNode) (tn : ITy) (hty : CNode.tyOf n = .ok (descr tn)) (hn : NT fp n) : NoTrap (truth .wrapping fp n) := by
   unfold truth
@@ -1249,7 +1374,7 @@ theorem nt_truth (n : CNode) (tn : ITy) (hty : CNode.tyOf n = .ok (descr tn)) (h
 
 theorem tyOf_mkCast (n : CNode) (ty : CTy) : CNode.tyOf (mkCast n ty) = .ok ty := rfl
 
-theorem nt_cmpArm (op : String) (cu cs : BitVec 64 → BitVec 64 → Bool) (l r : CNode) (t : ITy)
+theorem nt_cmpArm (op : BitVec 80 → BitVec 80 → Bool) (cu cs : BitVec 64 → BitVec 64 → Bool) (l r : CNode) (t : ITy)
     (hty : CNode.tyOf l = .ok (descr t)) (hl : NT fp l) (hr : NT fp r) : NoTrap (cmpArm .wrapping fp op cu cs l r) := by
   unfold cmpArm
   simp only [hty, bind, Except.bind, descr_not_flonum, Bool.false_eq_true, ite_false]
@@ -1260,16 +1385,16 @@ theorem nt_cmpArm (op : String) (cu cs : BitVec 64 → BitVec 64 → Bool) (l r 
 theorem no_trap (e : CExpr) : NT fp (elabE e) := by
   induction e with
   | lit t v =>
-    intro label; simp only [elabE]; rw [eval2_NUM _ _ _ _ _ _ _ _ _ _ (descr_not_flonum t)]; exact noTrap_pure _
+    intro label; simp only [elabE]; rw [eval2_NUM _ _ _ _ _ _ _ _ _ _ _ (descr_not_flonum t)]; exact noTrap_pure _
   | un op e ih =>
     have hc := nt_cast fp (elabE e) (typeOf e).promote _ (tyOf_elab e) ih
     intro label
     cases op <;> simp only [elabE, mkPromoted, un, elab_ty, gct_int]
-    · rw [eval2_NEG _ _ _ _ _ _ _ _ _ _ (descr_not_flonum _)]
+    · rw [eval2_NEG _ _ _ _ _ _ _ _ _ _ _ (descr_not_flonum _)]
       exact noTrap_wrap _ (noTrap_bind (hc false) (fun _ => noTrap_ok _))
-    · rw [eval2_BITNOT _ _ _ _ _ _ _ _ _ _ (descr_not_flonum _)]
+    · rw [eval2_BITNOT _ _ _ _ _ _ _ _ _ _ _ (descr_not_flonum _)]
       exact noTrap_wrap _ (noTrap_bind (hc false) (fun _ => noTrap_pure _))
-    · rw [eval2_NOT _ _ _ _ _ _ _ _ _ _ (show isFlonum tyInt = false from rfl)]
+    · rw [eval2_NOT _ _ _ _ _ _ _ _ _ _ _ (show isFlonum tyInt = false from rfl)]
       exact noTrap_wrap _ (noTrap_bind (nt_truth fp _ _ (tyOf_elab e) ih) (fun _ => noTrap_pure _))
     · split
       · exact nt_cast fp (elabE e) .i32 _ (tyOf_elab e) ih label
@@ -1279,51 +1404,51 @@ theorem no_trap (e : CExpr) : NT fp (elabE e) := by
     have hcb := fun t => nt_cast fp (elabE b) t _ (tyOf_elab b) ihb
     intro label
     cases op <;> simp only [elabE, mkPromoted, mkArith, mkCompare, bin, elab_ty, gct_descr, gct_int]
-    · rw [eval2_ADD _ _ _ _ _ _ _ _ _ _ (descr_not_flonum _)]
+    · rw [eval2_ADD _ _ _ _ _ _ _ _ _ _ _ (descr_not_flonum _)]
       exact noTrap_wrap _ (noTrap_bind (hca _ _) (fun _ => noTrap_bind (hcb _ _) (fun _ => noTrap_ok _)))
-    · rw [eval2_SUB _ _ _ _ _ _ _ _ _ _ (descr_not_flonum _)]
+    · rw [eval2_SUB _ _ _ _ _ _ _ _ _ _ _ (descr_not_flonum _)]
       exact noTrap_wrap _ (noTrap_bind (hca _ _) (fun _ => noTrap_bind (hcb _ _) (fun _ => noTrap_ok _)))
-    · rw [eval2_MUL _ _ _ _ _ _ _ _ _ _ (descr_not_flonum _)]
+    · rw [eval2_MUL _ _ _ _ _ _ _ _ _ _ _ (descr_not_flonum _)]
       exact noTrap_wrap _ (noTrap_bind (hca _ _) (fun _ => noTrap_bind (hcb _ _) (fun _ => noTrap_ok _)))
-    · rw [eval2_DIV _ _ _ _ _ _ _ _ _ _ (descr_not_flonum _)]
+    · rw [eval2_DIV _ _ _ _ _ _ _ _ _ _ _ (descr_not_flonum _)]
       exact noTrap_wrap _ (noTrap_bind (hca _ _) (fun _ => noTrap_bind (hcb _ _) (fun _ => noTrap_divmod _ _ _ _)))
-    · rw [eval2_MOD _ _ _ _ _ _ _ _ _ _ (descr_not_flonum _)]
+    · rw [eval2_MOD _ _ _ _ _ _ _ _ _ _ _ (descr_not_flonum _)]
       exact noTrap_wrap _ (noTrap_bind (hca _ _) (fun _ => noTrap_bind (hcb _ _) (fun _ => noTrap_divmod _ _ _ _)))
-    · rw [eval2_BITAND _ _ _ _ _ _ _ _ _ _ (descr_not_flonum _)]
+    · rw [eval2_BITAND _ _ _ _ _ _ _ _ _ _ _ (descr_not_flonum _)]
       exact noTrap_wrap _ (noTrap_bind (hca _ _) (fun _ => noTrap_bind (hcb _ _) (fun _ => noTrap_pure _)))
-    · rw [eval2_BITOR _ _ _ _ _ _ _ _ _ _ (descr_not_flonum _)]
+    · rw [eval2_BITOR _ _ _ _ _ _ _ _ _ _ _ (descr_not_flonum _)]
       exact noTrap_wrap _ (noTrap_bind (hca _ _) (fun _ => noTrap_bind (hcb _ _) (fun _ => noTrap_pure _)))
-    · rw [eval2_BITXOR _ _ _ _ _ _ _ _ _ _ (descr_not_flonum _)]
+    · rw [eval2_BITXOR _ _ _ _ _ _ _ _ _ _ _ (descr_not_flonum _)]
       exact noTrap_wrap _ (noTrap_bind (hca _ _) (fun _ => noTrap_bind (hcb _ _) (fun _ => noTrap_pure _)))
-    · rw [eval2_SHL _ _ _ _ _ _ _ _ _ _ (descr_not_flonum _)]
+    · rw [eval2_SHL _ _ _ _ _ _ _ _ _ _ _ (descr_not_flonum _)]
       exact noTrap_wrap _ (noTrap_bind (hca _ _) (fun _ => noTrap_bind (ihb _) (fun _ => noTrap_shlS _ _)))
-    · rw [eval2_SHR _ _ _ _ _ _ _ _ _ _ (descr_not_flonum _)]
+    · rw [eval2_SHR _ _ _ _ _ _ _ _ _ _ _ (descr_not_flonum _)]
       exact noTrap_wrap _ (noTrap_bind (hca _ _) (fun _ => noTrap_bind (ihb _) (fun _ => noTrap_ite (noTrap_shrU _ _) (noTrap_shrS _ _))))
-    · rw [eval2_EQ _ _ _ _ _ _ _ _ _ _ (show isFlonum tyInt = false from rfl)]
+    · rw [eval2_EQ _ _ _ _ _ _ _ _ _ _ _ (show isFlonum tyInt = false from rfl)]
       exact noTrap_wrap _ (nt_cmpArm fp _ _ _ _ _ _ (tyOf_mkCast _ _) (hca _) (hcb _))
-    · rw [eval2_NE _ _ _ _ _ _ _ _ _ _ (show isFlonum tyInt = false from rfl)]
+    · rw [eval2_NE _ _ _ _ _ _ _ _ _ _ _ (show isFlonum tyInt = false from rfl)]
       exact noTrap_wrap _ (nt_cmpArm fp _ _ _ _ _ _ (tyOf_mkCast _ _) (hca _) (hcb _))
-    · rw [eval2_LT _ _ _ _ _ _ _ _ _ _ (show isFlonum tyInt = false from rfl)]
+    · rw [eval2_LT _ _ _ _ _ _ _ _ _ _ _ (show isFlonum tyInt = false from rfl)]
       exact noTrap_wrap _ (nt_cmpArm fp _ _ _ _ _ _ (tyOf_mkCast _ _) (hca _) (hcb _))
-    · rw [eval2_LE _ _ _ _ _ _ _ _ _ _ (show isFlonum tyInt = false from rfl)]
+    · rw [eval2_LE _ _ _ _ _ _ _ _ _ _ _ (show isFlonum tyInt = false from rfl)]
       exact noTrap_wrap _ (nt_cmpArm fp _ _ _ _ _ _ (tyOf_mkCast _ _) (hca _) (hcb _))
-    · rw [eval2_LT _ _ _ _ _ _ _ _ _ _ (show isFlonum tyInt = false from rfl)]
+    · rw [eval2_LT _ _ _ _ _ _ _ _ _ _ _ (show isFlonum tyInt = false from rfl)]
       exact noTrap_wrap _ (nt_cmpArm fp _ _ _ _ _ _ (tyOf_mkCast _ _) (hcb _) (hca _))
-    · rw [eval2_LE _ _ _ _ _ _ _ _ _ _ (show isFlonum tyInt = false from rfl)]
+    · rw [eval2_LE _ _ _ _ _ _ _ _ _ _ _ (show isFlonum tyInt = false from rfl)]
       exact noTrap_wrap _ (nt_cmpArm fp _ _ _ _ _ _ (tyOf_mkCast _ _) (hcb _) (hca _))
   | land a b iha ihb =>
     intro label; simp only [elabE, bin]
-    rw [eval2_LOGAND _ _ _ _ _ _ _ _ _ _ (show isFlonum tyInt = false from rfl)]
+    rw [eval2_LOGAND _ _ _ _ _ _ _ _ _ _ _ (show isFlonum tyInt = false from rfl)]
     exact noTrap_wrap _ (noTrap_bind (nt_truth fp _ _ (tyOf_elab a) iha) (fun _ =>
       noTrap_bind (noTrap_ite (nt_truth fp _ _ (tyOf_elab b) ihb) (noTrap_pure _)) (fun _ => noTrap_pure _)))
   | lor a b iha ihb =>
     intro label; simp only [elabE, bin]
-    rw [eval2_LOGOR _ _ _ _ _ _ _ _ _ _ (show isFlonum tyInt = false from rfl)]
+    rw [eval2_LOGOR _ _ _ _ _ _ _ _ _ _ _ (show isFlonum tyInt = false from rfl)]
     exact noTrap_wrap _ (noTrap_bind (nt_truth fp _ _ (tyOf_elab a) iha) (fun _ =>
       noTrap_bind (noTrap_ite (noTrap_pure _) (nt_truth fp _ _ (tyOf_elab b) ihb)) (fun _ => noTrap_pure _)))
   | cond c a b ihc iha ihb =>
     intro label; simp only [elabE, elab_ty, gct_descr]
-    rw [eval2_COND _ _ _ _ _ _ _ _ _ _ (descr_not_flonum _)]
+    rw [eval2_COND _ _ _ _ _ _ _ _ _ _ _ (descr_not_flonum _)]
     exact noTrap_wrap _ (noTrap_bind (nt_truth fp _ _ (tyOf_elab c) ihc) (fun _ =>
       noTrap_ite (nt_cast fp _ _ _ (tyOf_elab a) iha _) (nt_cast fp _ _ _ (tyOf_elab b) ihb _)))
   | cast t e ih => exact nt_cast fp _ t _ (tyOf_elab e) ih
@@ -1338,7 +1463,7 @@ variable (fp : FpEnv)
 theorem isConst_null : isConstExpr .wrapping fp .null = .error (.crash "NULL node dereferenced") := by rw [isConstExpr]
 
 section
-variable (ty : CTy) (nv : BitVec 64) (l r c t e : CNode)
+variable (ty : CTy) (nv : BitVec 64) (fv : BitVec 80) (l r c t e : CNode)
 
 /-- binary operator kinds of `is_const_expr` -/
 def constBin : List NodeKind := [.ND_ADD, .ND_SUB, .ND_MUL, .ND_DIV, .ND_MOD, .ND_BITAND, .ND_BITOR, .ND_BITXOR, .ND_SHL, .ND_SHR,
@@ -1346,48 +1471,48 @@ def constBin : List NodeKind := [.ND_ADD, .ND_SUB, .ND_MUL, .ND_DIV, .ND_MOD, .N
 def constUn : List NodeKind := [.ND_NEG, .ND_NOT, .ND_BITNOT, .ND_CAST]
 
 theorem isConst_bin (k : NodeKind) (hk : k ∈ constBin) :
-    isConstExpr .wrapping fp (.mk k ty nv l r c t e)
+    isConstExpr .wrapping fp (.mk k ty nv fv l r c t e)
       = (isConstExpr .wrapping fp l >>= fun x => if x then isConstExpr .wrapping fp r else pure false) := by
   simp only [constBin, List.mem_cons, List.mem_nil_iff, or_false] at hk
   rcases hk with h | h | h | h | h | h | h | h | h | h | h | h | h | h <;> subst h <;> rw [isConstExpr]
 
 theorem isConst_un (k : NodeKind) (hk : k ∈ constUn) :
-    isConstExpr .wrapping fp (.mk k ty nv l r c t e) = isConstExpr .wrapping fp l := by
+    isConstExpr .wrapping fp (.mk k ty nv fv l r c t e) = isConstExpr .wrapping fp l := by
   simp only [constUn, List.mem_cons, List.mem_nil_iff, or_false] at hk
   rcases hk with h | h | h | h <;> subst h <;> rw [isConstExpr]
 
-theorem isConst_num : isConstExpr .wrapping fp (.mk .ND_NUM ty nv l r c t e) = .ok true := by rw [isConstExpr]; rfl
+theorem isConst_num : isConstExpr .wrapping fp (.mk .ND_NUM ty nv fv l r c t e) = .ok true := by rw [isConstExpr]; rfl
 
-theorem isConst_comma : isConstExpr .wrapping fp (.mk .ND_COMMA ty nv l r c t e) = isConstExpr .wrapping fp r := by rw [isConstExpr]
+theorem isConst_comma : isConstExpr .wrapping fp (.mk .ND_COMMA ty nv fv l r c t e) = isConstExpr .wrapping fp r := by rw [isConstExpr]
 
 theorem isConst_cond :
-    isConstExpr .wrapping fp (.mk .ND_COND ty nv l r c t e)
+    isConstExpr .wrapping fp (.mk .ND_COND ty nv fv l r c t e)
       = (isConstExpr .wrapping fp c >>= fun x => if !x then pure false else
           (truth .wrapping fp c >>= fun b => if b then isConstExpr .wrapping fp t else isConstExpr .wrapping fp e)) := by
   rw [isConstExpr]; rfl
 
 /-- `&&`: the right operand is looked at only when the left one is true (it is not evaluated otherwise, C11 6.6p3) -/
 theorem isConst_logand :
-    isConstExpr .wrapping fp (.mk .ND_LOGAND ty nv l r c t e)
+    isConstExpr .wrapping fp (.mk .ND_LOGAND ty nv fv l r c t e)
       = (isConstExpr .wrapping fp l >>= fun x => if !x then pure false else
           (truth .wrapping fp l >>= fun b => if !b then pure true else isConstExpr .wrapping fp r)) := by
   rw [isConstExpr]; rfl
 
 theorem isConst_logor :
-    isConstExpr .wrapping fp (.mk .ND_LOGOR ty nv l r c t e)
+    isConstExpr .wrapping fp (.mk .ND_LOGOR ty nv fv l r c t e)
       = (isConstExpr .wrapping fp l >>= fun x => if !x then pure false else
           (truth .wrapping fp l >>= fun b => if b then pure true else isConstExpr .wrapping fp r)) := by
   rw [isConstExpr]; rfl
 end
 
 theorem isConst_cast (n : CNode) (ty : CTy) : isConstExpr .wrapping fp (mkCast n ty) = isConstExpr .wrapping fp n :=
-  isConst_un fp _ _ _ _ _ _ _ .ND_CAST (by simp [constUn])
+  isConst_un fp _ _ _ _ _ _ _ _ .ND_CAST (by simp [constUn])
 
 /-- **every integer constant expression that has a value is accepted by `is_const_expr`** -/
 theorem isConst_elab : ∀ (e : CExpr) (v : Int), Spec.Const.eval e = some v → isConstExpr .wrapping fp (elabE e) = .ok true := by
   intro e
   induction e with
-  | lit t v0 => intro v _; simp only [elabE]; exact isConst_num fp _ _ _ _ _ _ _
+  | lit t v0 => intro v _; simp only [elabE]; exact isConst_num fp _ _ _ _ _ _ _ _
   | un op e ih =>
     intro v h
     simp only [Spec.Const.eval] at h
@@ -1396,9 +1521,9 @@ theorem isConst_elab : ∀ (e : CExpr) (v : Int), Spec.Const.eval e = some v →
     · rename_i x hx
       have ih := ih x hx
       cases op <;> simp only [elabE, mkPromoted, un]
-      · rw [isConst_un fp _ _ _ _ _ _ _ .ND_NEG (by simp [constUn]), isConst_cast, ih]
-      · rw [isConst_un fp _ _ _ _ _ _ _ .ND_BITNOT (by simp [constUn]), isConst_cast, ih]
-      · rw [isConst_un fp _ _ _ _ _ _ _ .ND_NOT (by simp [constUn]), ih]
+      · rw [isConst_un fp _ _ _ _ _ _ _ _ .ND_NEG (by simp [constUn]), isConst_cast, ih]
+      · rw [isConst_un fp _ _ _ _ _ _ _ _ .ND_BITNOT (by simp [constUn]), isConst_cast, ih]
+      · rw [isConst_un fp _ _ _ _ _ _ _ _ .ND_NOT (by simp [constUn]), ih]
       · split
         · rw [isConst_cast, ih]
         · exact ih
@@ -1409,7 +1534,7 @@ theorem isConst_elab : ∀ (e : CExpr) (v : Int), Spec.Const.eval e = some v →
     · rename_i x y hx hy
       have iha := iha x hx; have ihb := ihb y hy
       cases op <;> simp only [elabE, mkPromoted, mkArith, mkCompare, bin] <;>
-        rw [isConst_bin fp _ _ _ _ _ _ _ _ (by simp [constBin])] <;>
+        rw [isConst_bin fp _ _ _ _ _ _ _ _ _ (by simp [constBin])] <;>
         simp only [isConst_cast, iha, ihb, bind, Except.bind, ite_true]
     · cases h
   | land a b iha ihb =>
@@ -1479,13 +1604,6 @@ theorem isConst_elab : ∀ (e : CExpr) (v : Int), Spec.Const.eval e = some v →
 end constness
 
 section ncc
-theorem eval2_flonum (h : HostMode) (fp : FpEnv) (k : NodeKind) (ty : CTy) (nv : BitVec 64) (l r c t e : CNode) (label : Bool)
-    (hf : isFlonum ty = true) :
-    eval2 h fp (.mk k ty nv l r c t e) label = (fp.toI64 (.mk k ty nv l r c t e) >>= fun v => pure (wrapTy ty v)) := by
-  unfold eval2
-  simp only [hf, ite_true]
-  change (_ >>= wrapM _) = _; rw [wrapK]
-
 /-- the diagnostic of the default arm of `eval3` -/
 def ncc : String := "not a compile-time constant"
 
@@ -1542,38 +1660,72 @@ theorem notNcc_shrU (a : BitVec 64) (c : Int) : NotNcc (shrU .wrapping a c) := b
   · intro h; cases h
   · exact notNcc_ok _
 
-/-- the floating evaluator never answers "not a compile-time constant" for the operands it is given (it is abstract here) -/
-structure FpClean (fp : FpEnv) : Prop where
-  toI64 : ∀ n, NotNcc (fp.toI64 n)
-  neZero : ∀ n, NotNcc (fp.neZero n)
-  cmp : ∀ op a b, NotNcc (fp.cmp op a b)
+/-- what the folder needs of the host so that `eval_double(cond) ? …` (eval_double2) and `eval_truth(cond)` (is_const_expr)
+    select the same operand when `cond` has integer type: the `long double` made from an `int64_t` / `uint64_t` compares
+    equal to zero exactly when the integer is zero -/
+structure FpZeroExact (fp : FpEnv) : Prop where
+  i64zero : ∀ v, fp.eq80 (fp.i64to80 v) (fp.i32to80 (0#32)) = (v == 0#64)
+  u64zero : ∀ v, fp.eq80 (fp.u64to80 v) (fp.i32to80 (0#32)) = (v == 0#64)
 
-theorem noFp_clean : FpClean noFp :=
-  { toI64 := fun _ h => (by cases h), neZero := fun _ h => (by cases h), cmp := fun _ _ _ h => (by cases h) }
+/-- every node has arithmetic type, and a node of floating type is built by an operator that yields a floating result
+    (`+ - * /`, unary `-`, `?:`, `,`, a cast, a constant): what `add_type` guarantees for an arithmetic expression -/
+def ArithTyped : CNode → Bool
+  | .null => true
+  | .mk k ty _ _ l r c t e =>
+    (isInteger ty || (isFlonum ty && fkinds.contains k)) && ArithTyped l && ArithTyped r && ArithTyped c && ArithTyped t && ArithTyped e
 
-variable (fp : FpEnv) (hfp : FpClean fp)
-include hfp
-
-omit hfp in
 theorem notNcc_tyOf (n : CNode) : NotNcc (CNode.tyOf n) := by
   cases n <;> intro h <;> cases h
 
-theorem notNcc_truth (n : CNode) (hn : ∀ label, NotNcc (eval2 .wrapping fp n label)) : NotNcc (truth .wrapping fp n) := by
-  unfold truth
-  exact notNcc_bind (notNcc_tyOf n) (fun _ => notNcc_ite (hfp.neZero n) (notNcc_bind (hn false) (fun _ => notNcc_pure _)))
+theorem notNcc_cvtI64 (fp : FpEnv) (x : BitVec 80) : NotNcc (cvtI64 .wrapping fp x) := notNcc_ok _
+theorem notNcc_cvtU64 (fp : FpEnv) (x : BitVec 80) : NotNcc (cvtU64 .wrapping fp x) := notNcc_ok _
 
-theorem notNcc_cmpArm (op : String) (cu cs : BitVec 64 → BitVec 64 → Bool) (l r : CNode)
-    (hl : ∀ label, NotNcc (eval2 .wrapping fp l label)) (hr : ∀ label, NotNcc (eval2 .wrapping fp r label)) :
+variable (fp : FpEnv)
+
+theorem notNcc_fpTruth (n : CNode) (hd : NotNcc (evalDouble .wrapping fp n)) : NotNcc (fpTruth .wrapping fp n) :=
+  notNcc_bind hd (fun _ => notNcc_pure _)
+
+theorem notNcc_truth (n : CNode) (hn : ∀ label, NotNcc (eval2 .wrapping fp n label)) (hd : NotNcc (evalDouble .wrapping fp n)) :
+    NotNcc (truth .wrapping fp n) := by
+  unfold truth
+  exact notNcc_bind (notNcc_tyOf n) (fun _ => notNcc_ite (notNcc_fpTruth fp n hd) (notNcc_bind (hn false) (fun _ => notNcc_pure _)))
+
+theorem notNcc_cmpArm (op : BitVec 80 → BitVec 80 → Bool) (cu cs : BitVec 64 → BitVec 64 → Bool) (l r : CNode)
+    (hl : ∀ label, NotNcc (eval2 .wrapping fp l label)) (hr : ∀ label, NotNcc (eval2 .wrapping fp r label))
+    (hld : NotNcc (evalDouble .wrapping fp l)) (hrd : NotNcc (evalDouble .wrapping fp r)) :
     NotNcc (cmpArm .wrapping fp op cu cs l r) := by
   unfold cmpArm
-  refine notNcc_bind (notNcc_tyOf l) (fun _ => notNcc_ite (notNcc_bind (hfp.cmp _ _ _) (fun _ => notNcc_pure _)) (notNcc_ite ?_ ?_)) <;>
+  refine notNcc_bind (notNcc_tyOf l) (fun _ => notNcc_ite (notNcc_bind hld (fun _ => notNcc_bind hrd (fun _ => notNcc_pure _)))
+    (notNcc_ite ?_ ?_)) <;>
     exact notNcc_bind (hl false) (fun _ => notNcc_bind (hr false) (fun _ => notNcc_pure _))
 
+/-- `eval_truth(c)` and `eval_double(c) != 0` agree on a node of arithmetic type (and on NULL) -/
+theorem truth_eq_fpTruth (hfp : FpZeroExact fp) (c : CNode) (hc : ArithTyped c = true) :
+    truth .wrapping fp c = fpTruth .wrapping fp c := by
+  cases c with
+  | null => rw [truth, fpTruth, evalDouble_null]; rfl
+  | mk k ty nv fv l r c2 t e =>
+    simp only [ArithTyped, Bool.and_eq_true, Bool.or_eq_true] at hc
+    unfold truth
+    simp only [CNode.tyOf, bind, Except.bind]
+    rcases hc.1.1.1.1.1 with hi | hf
+    · have hf := integer_not_flonum ty hi
+      simp only [hf, Bool.false_eq_true, ite_false]
+      unfold fpTruth
+      rw [evalDouble_integer _ _ _ _ _ _ _ _ _ _ _ hi]
+      cases eval2 .wrapping fp (.mk k ty nv fv l r c2 t e) false with
+      | error x => rfl
+      | ok v =>
+        simp only [bind, Except.bind, pure, Except.pure]
+        cases ty.isUnsigned
+        · simp only [Bool.false_eq_true, ite_false, hfp.i64zero]; rfl
+        · simp only [ite_true, hfp.u64zero]; rfl
+    · simp only [hf.1, ite_true]
 
 end ncc
 
 section ncc2
-variable (fp : FpEnv) (hfp : FpClean fp)
+variable (fp : FpEnv) (hfp : FpZeroExact fp)
 include hfp
 
 omit hfp in
@@ -1584,81 +1736,114 @@ theorem ok_true_of_bind {m : Except Fail Bool} {f : Except Fail Bool}
   | error e => cases h
   | ok b => cases b <;> simp_all [bind, Except.bind, pure, Except.pure]
 
-/-- **a tree accepted by `is_const_expr` never makes the folder answer "not a compile-time constant"** -/
-theorem const_no_ncc : ∀ (n : CNode), isConstExpr .wrapping fp n = .ok true → ∀ label, NotNcc (eval2 .wrapping fp n label) := by
+omit hfp in
+theorem notNcc_round {raw : Except Fail (BitVec 80)} (ty : CTy) (h : NotNcc raw) : NotNcc (raw >>= fun v => pure (roundTy fp ty v)) :=
+  notNcc_bind h (fun _ => notNcc_pure _)
+
+/-- the result of folding a node: neither `eval2` nor `eval_double` answers "not a compile-time constant" -/
+def Clean (n : CNode) : Prop := (∀ label, NotNcc (eval2 .wrapping fp n label)) ∧ NotNcc (evalDouble .wrapping fp n)
+
+/-- **a tree of arithmetic type accepted by `is_const_expr` never makes the folder answer "not a compile-time constant"**
+    (neither through `eval2` nor through `eval_double`) -/
+theorem const_clean : ∀ (n : CNode), ArithTyped n = true → isConstExpr .wrapping fp n = .ok true → Clean fp n := by
   intro n
   induction n with
-  | null => intro h; rw [isConst_null] at h; cases h
-  | mk k ty nv l r c t e ihl ihr ihc iht ihe =>
-    intro h label
-    by_cases hf : isFlonum ty = true
-    · rw [eval2_flonum _ _ _ _ _ _ _ _ _ _ _ hf]; exact notNcc_wrap _ (hfp.toI64 _)
-    · have hf : isFlonum ty = false := by simpa using hf
-      have bin2 : ∀ (hk : k ∈ constBin), (∀ lab, NotNcc (eval2 .wrapping fp l lab)) ∧ (∀ lab, NotNcc (eval2 .wrapping fp r lab)) := by
-        intro hk
-        rw [isConst_bin fp _ _ _ _ _ _ _ k hk] at h
-        have := ok_true_of_bind h
-        exact ⟨ihl this.1, ihr this.2⟩
-      have un1 : ∀ (hk : k ∈ constUn), (∀ lab, NotNcc (eval2 .wrapping fp l lab)) := by
-        intro hk
-        rw [isConst_un fp _ _ _ _ _ _ _ k hk] at h
-        exact ihl h
+  | null => intro _ h; rw [isConst_null] at h; cases h
+  | mk k ty nv fv l r c t e ihl ihr ihc iht ihe =>
+    intro hty h
+    simp only [ArithTyped, Bool.and_eq_true, Bool.or_eq_true] at hty
+    obtain ⟨⟨⟨⟨⟨hroot, htl⟩, htr⟩, htc⟩, htt⟩, hte⟩ := hty
+    have ihl := ihl htl; have ihr := ihr htr; have ihc := ihc htc; have iht := iht htt; have ihe := ihe hte
+    have bin2 : ∀ (hk : k ∈ constBin), Clean fp l ∧ Clean fp r := by
+      intro hk
+      rw [isConst_bin fp _ _ _ _ _ _ _ _ k hk] at h
+      have := ok_true_of_bind h
+      exact ⟨ihl this.1, ihr this.2⟩
+    have un1 : ∀ (hk : k ∈ constUn), Clean fp l := by
+      intro hk
+      rw [isConst_un fp _ _ _ _ _ _ _ _ k hk] at h
+      exact ihl h
+    -- the operand `?:` selects is accepted, whichever of `eval_truth` / `eval_double != 0` selects it
+    have condSel : k = .ND_COND → Clean fp c ∧ ∀ b, truth .wrapping fp c = .ok b → Clean fp (if b then t else e) := by
+      intro hk; subst hk
+      rw [isConst_cond] at h
+      cases hc : isConstExpr .wrapping fp c with
+      | error err => rw [hc] at h; cases h
+      | ok bc =>
+        rw [hc] at h
+        cases bc with
+        | false => simp [bind, Except.bind, pure, Except.pure] at h
+        | true =>
+          simp only [bind, Except.bind, Bool.not_true, Bool.false_eq_true, ite_false] at h
+          refine ⟨ihc hc, fun b hb => ?_⟩
+          rw [hb] at h
+          cases b with
+          | true => simp only [ite_true] at h ⊢; exact iht h
+          | false => simp only [Bool.false_eq_true, ite_false] at h ⊢; exact ihe h
+    rcases hroot with hi | hfk
+    · -- a node of integer type: `eval2` arm by arm, `eval_double` through `eval2`
+      have hf := integer_not_flonum ty hi
+      suffices h2 : ∀ label, NotNcc (eval2 .wrapping fp (.mk k ty nv fv l r c t e) label) by
+        refine ⟨h2, ?_⟩
+        rw [evalDouble_integer _ _ _ _ _ _ _ _ _ _ _ hi]
+        exact notNcc_bind (h2 false) (fun _ => notNcc_pure _)
+      intro label
       cases k
       case ND_ADD =>
         have ⟨h1, h2⟩ := bin2 (by simp [constBin])
-        rw [eval2_ADD _ _ _ _ _ _ _ _ _ _ hf]
-        exact notNcc_wrap _ (notNcc_bind (h1 _) (fun _ => notNcc_bind (h2 _) (fun _ => notNcc_ok _)))
+        rw [eval2_ADD _ _ _ _ _ _ _ _ _ _ _ hf]
+        exact notNcc_wrap _ (notNcc_bind (h1.1 _) (fun _ => notNcc_bind (h2.1 _) (fun _ => notNcc_ok _)))
       case ND_SUB =>
         have ⟨h1, h2⟩ := bin2 (by simp [constBin])
-        rw [eval2_SUB _ _ _ _ _ _ _ _ _ _ hf]
-        exact notNcc_wrap _ (notNcc_bind (h1 _) (fun _ => notNcc_bind (h2 _) (fun _ => notNcc_ok _)))
+        rw [eval2_SUB _ _ _ _ _ _ _ _ _ _ _ hf]
+        exact notNcc_wrap _ (notNcc_bind (h1.1 _) (fun _ => notNcc_bind (h2.1 _) (fun _ => notNcc_ok _)))
       case ND_MUL =>
         have ⟨h1, h2⟩ := bin2 (by simp [constBin])
-        rw [eval2_MUL _ _ _ _ _ _ _ _ _ _ hf]
-        exact notNcc_wrap _ (notNcc_bind (h1 _) (fun _ => notNcc_bind (h2 _) (fun _ => notNcc_ok _)))
+        rw [eval2_MUL _ _ _ _ _ _ _ _ _ _ _ hf]
+        exact notNcc_wrap _ (notNcc_bind (h1.1 _) (fun _ => notNcc_bind (h2.1 _) (fun _ => notNcc_ok _)))
       case ND_DIV =>
         have ⟨h1, h2⟩ := bin2 (by simp [constBin])
-        rw [eval2_DIV _ _ _ _ _ _ _ _ _ _ hf]
-        exact notNcc_wrap _ (notNcc_bind (h1 _) (fun _ => notNcc_bind (h2 _) (fun _ => notNcc_divmod _ _ _ _)))
+        rw [eval2_DIV _ _ _ _ _ _ _ _ _ _ _ hf]
+        exact notNcc_wrap _ (notNcc_bind (h1.1 _) (fun _ => notNcc_bind (h2.1 _) (fun _ => notNcc_divmod _ _ _ _)))
       case ND_MOD =>
         have ⟨h1, h2⟩ := bin2 (by simp [constBin])
-        rw [eval2_MOD _ _ _ _ _ _ _ _ _ _ hf]
-        exact notNcc_wrap _ (notNcc_bind (h1 _) (fun _ => notNcc_bind (h2 _) (fun _ => notNcc_divmod _ _ _ _)))
+        rw [eval2_MOD _ _ _ _ _ _ _ _ _ _ _ hf]
+        exact notNcc_wrap _ (notNcc_bind (h1.1 _) (fun _ => notNcc_bind (h2.1 _) (fun _ => notNcc_divmod _ _ _ _)))
       case ND_BITAND =>
         have ⟨h1, h2⟩ := bin2 (by simp [constBin])
-        rw [eval2_BITAND _ _ _ _ _ _ _ _ _ _ hf]
-        exact notNcc_wrap _ (notNcc_bind (h1 _) (fun _ => notNcc_bind (h2 _) (fun _ => notNcc_pure _)))
+        rw [eval2_BITAND _ _ _ _ _ _ _ _ _ _ _ hf]
+        exact notNcc_wrap _ (notNcc_bind (h1.1 _) (fun _ => notNcc_bind (h2.1 _) (fun _ => notNcc_pure _)))
       case ND_BITOR =>
         have ⟨h1, h2⟩ := bin2 (by simp [constBin])
-        rw [eval2_BITOR _ _ _ _ _ _ _ _ _ _ hf]
-        exact notNcc_wrap _ (notNcc_bind (h1 _) (fun _ => notNcc_bind (h2 _) (fun _ => notNcc_pure _)))
+        rw [eval2_BITOR _ _ _ _ _ _ _ _ _ _ _ hf]
+        exact notNcc_wrap _ (notNcc_bind (h1.1 _) (fun _ => notNcc_bind (h2.1 _) (fun _ => notNcc_pure _)))
       case ND_BITXOR =>
         have ⟨h1, h2⟩ := bin2 (by simp [constBin])
-        rw [eval2_BITXOR _ _ _ _ _ _ _ _ _ _ hf]
-        exact notNcc_wrap _ (notNcc_bind (h1 _) (fun _ => notNcc_bind (h2 _) (fun _ => notNcc_pure _)))
+        rw [eval2_BITXOR _ _ _ _ _ _ _ _ _ _ _ hf]
+        exact notNcc_wrap _ (notNcc_bind (h1.1 _) (fun _ => notNcc_bind (h2.1 _) (fun _ => notNcc_pure _)))
       case ND_SHL =>
         have ⟨h1, h2⟩ := bin2 (by simp [constBin])
-        rw [eval2_SHL _ _ _ _ _ _ _ _ _ _ hf]
-        exact notNcc_wrap _ (notNcc_bind (h1 _) (fun _ => notNcc_bind (h2 _) (fun _ => notNcc_shlS _ _)))
+        rw [eval2_SHL _ _ _ _ _ _ _ _ _ _ _ hf]
+        exact notNcc_wrap _ (notNcc_bind (h1.1 _) (fun _ => notNcc_bind (h2.1 _) (fun _ => notNcc_shlS _ _)))
       case ND_SHR =>
         have ⟨h1, h2⟩ := bin2 (by simp [constBin])
-        rw [eval2_SHR _ _ _ _ _ _ _ _ _ _ hf]
-        exact notNcc_wrap _ (notNcc_bind (h1 _) (fun _ => notNcc_bind (h2 _) (fun _ => notNcc_ite (notNcc_shrU _ _) (notNcc_shrS _ _))))
+        rw [eval2_SHR _ _ _ _ _ _ _ _ _ _ _ hf]
+        exact notNcc_wrap _ (notNcc_bind (h1.1 _) (fun _ => notNcc_bind (h2.1 _) (fun _ => notNcc_ite (notNcc_shrU _ _) (notNcc_shrS _ _))))
       case ND_EQ =>
         have ⟨h1, h2⟩ := bin2 (by simp [constBin])
-        rw [eval2_EQ _ _ _ _ _ _ _ _ _ _ hf]; exact notNcc_wrap _ (notNcc_cmpArm fp hfp _ _ _ _ _ h1 h2)
+        rw [eval2_EQ _ _ _ _ _ _ _ _ _ _ _ hf]; exact notNcc_wrap _ (notNcc_cmpArm fp _ _ _ _ _ h1.1 h2.1 h1.2 h2.2)
       case ND_NE =>
         have ⟨h1, h2⟩ := bin2 (by simp [constBin])
-        rw [eval2_NE _ _ _ _ _ _ _ _ _ _ hf]; exact notNcc_wrap _ (notNcc_cmpArm fp hfp _ _ _ _ _ h1 h2)
+        rw [eval2_NE _ _ _ _ _ _ _ _ _ _ _ hf]; exact notNcc_wrap _ (notNcc_cmpArm fp _ _ _ _ _ h1.1 h2.1 h1.2 h2.2)
       case ND_LT =>
         have ⟨h1, h2⟩ := bin2 (by simp [constBin])
-        rw [eval2_LT _ _ _ _ _ _ _ _ _ _ hf]; exact notNcc_wrap _ (notNcc_cmpArm fp hfp _ _ _ _ _ h1 h2)
+        rw [eval2_LT _ _ _ _ _ _ _ _ _ _ _ hf]; exact notNcc_wrap _ (notNcc_cmpArm fp _ _ _ _ _ h1.1 h2.1 h1.2 h2.2)
       case ND_LE =>
         have ⟨h1, h2⟩ := bin2 (by simp [constBin])
-        rw [eval2_LE _ _ _ _ _ _ _ _ _ _ hf]; exact notNcc_wrap _ (notNcc_cmpArm fp hfp _ _ _ _ _ h1 h2)
+        rw [eval2_LE _ _ _ _ _ _ _ _ _ _ _ hf]; exact notNcc_wrap _ (notNcc_cmpArm fp _ _ _ _ _ h1.1 h2.1 h1.2 h2.2)
       case ND_LOGAND =>
         rw [isConst_logand] at h
-        rw [eval2_LOGAND _ _ _ _ _ _ _ _ _ _ hf]
+        rw [eval2_LOGAND _ _ _ _ _ _ _ _ _ _ _ hf]
         cases hc : isConstExpr .wrapping fp l with
         | error err => rw [hc] at h; cases h
         | ok bc =>
@@ -1671,7 +1856,7 @@ theorem const_no_ncc : ∀ (n : CNode), isConstExpr .wrapping fp n = .ok true 
             refine notNcc_wrap _ ?_
             cases htr : truth .wrapping fp l with
             | error err =>
-              have := notNcc_truth fp hfp l hl
+              have := notNcc_truth fp l hl.1 hl.2
               rw [htr] at this
               intro hh; exact this (by simpa [bind, Except.bind] using hh)
             | ok b =>
@@ -1680,13 +1865,13 @@ theorem const_no_ncc : ∀ (n : CNode), isConstExpr .wrapping fp n = .ok true 
               | true =>
                 simp only [Bool.not_true, Bool.false_eq_true, ite_false] at h
                 simp only [bind, Except.bind, ite_true]
-                exact notNcc_bind (notNcc_truth fp hfp r (ihr h)) (fun _ => notNcc_pure _)
+                exact notNcc_bind (notNcc_truth fp r (ihr h).1 (ihr h).2) (fun _ => notNcc_pure _)
               | false =>
                 simp only [bind, Except.bind, Bool.false_eq_true, ite_false]
                 exact notNcc_pure _
       case ND_LOGOR =>
         rw [isConst_logor] at h
-        rw [eval2_LOGOR _ _ _ _ _ _ _ _ _ _ hf]
+        rw [eval2_LOGOR _ _ _ _ _ _ _ _ _ _ _ hf]
         cases hc : isConstExpr .wrapping fp l with
         | error err => rw [hc] at h; cases h
         | ok bc =>
@@ -1699,7 +1884,7 @@ theorem const_no_ncc : ∀ (n : CNode), isConstExpr .wrapping fp n = .ok true 
             refine notNcc_wrap _ ?_
             cases htr : truth .wrapping fp l with
             | error err =>
-              have := notNcc_truth fp hfp l hl
+              have := notNcc_truth fp l hl.1 hl.2
               rw [htr] at this
               intro hh; exact this (by simpa [bind, Except.bind] using hh)
             | ok b =>
@@ -1708,56 +1893,193 @@ theorem const_no_ncc : ∀ (n : CNode), isConstExpr .wrapping fp n = .ok true 
               | false =>
                 simp only [Bool.false_eq_true, ite_false] at h
                 simp only [bind, Except.bind, Bool.false_eq_true, ite_false]
-                exact notNcc_bind (notNcc_truth fp hfp r (ihr h)) (fun _ => notNcc_pure _)
+                exact notNcc_bind (notNcc_truth fp r (ihr h).1 (ihr h).2) (fun _ => notNcc_pure _)
               | true =>
                 simp only [bind, Except.bind, ite_true]
                 exact notNcc_pure _
       case ND_NEG =>
         have h1 := un1 (by simp [constUn])
-        rw [eval2_NEG _ _ _ _ _ _ _ _ _ _ hf]; exact notNcc_wrap _ (notNcc_bind (h1 _) (fun _ => notNcc_ok _))
+        rw [eval2_NEG _ _ _ _ _ _ _ _ _ _ _ hf]; exact notNcc_wrap _ (notNcc_bind (h1.1 _) (fun _ => notNcc_ok _))
       case ND_NOT =>
         have h1 := un1 (by simp [constUn])
-        rw [eval2_NOT _ _ _ _ _ _ _ _ _ _ hf]; exact notNcc_wrap _ (notNcc_bind (notNcc_truth fp hfp _ h1) (fun _ => notNcc_pure _))
+        rw [eval2_NOT _ _ _ _ _ _ _ _ _ _ _ hf]; exact notNcc_wrap _ (notNcc_bind (notNcc_truth fp _ h1.1 h1.2) (fun _ => notNcc_pure _))
       case ND_BITNOT =>
         have h1 := un1 (by simp [constUn])
-        rw [eval2_BITNOT _ _ _ _ _ _ _ _ _ _ hf]; exact notNcc_wrap _ (notNcc_bind (h1 _) (fun _ => notNcc_pure _))
+        rw [eval2_BITNOT _ _ _ _ _ _ _ _ _ _ _ hf]; exact notNcc_wrap _ (notNcc_bind (h1.1 _) (fun _ => notNcc_pure _))
       case ND_CAST =>
         have h1 := un1 (by simp [constUn])
-        rw [eval2_CAST _ _ _ _ _ _ _ _ _ _ hf]
-        refine notNcc_wrap _ (notNcc_ite ?_ (h1 _))
-        exact notNcc_bind (notNcc_tyOf l) (fun _ => notNcc_ite (notNcc_bind (hfp.neZero _) (fun _ => notNcc_pure _))
-          (notNcc_bind (h1 _) (fun _ => notNcc_pure _)))
-      case ND_NUM => rw [eval2_NUM _ _ _ _ _ _ _ _ _ _ hf]; exact notNcc_pure _
+        rw [eval2_CAST _ _ _ _ _ _ _ _ _ _ _ hf]
+        refine notNcc_wrap _ (notNcc_ite ?_ ?_)
+        · exact notNcc_bind (notNcc_tyOf l) (fun _ => notNcc_ite (notNcc_bind (notNcc_fpTruth fp _ h1.2) (fun _ => notNcc_pure _))
+            (notNcc_bind (h1.1 _) (fun _ => notNcc_pure _)))
+        · exact notNcc_bind (notNcc_tyOf l) (fun _ => notNcc_ite (notNcc_bind h1.2 (fun _ => notNcc_cvtU64 _ _)) (h1.1 _))
+      case ND_NUM => rw [eval2_NUM _ _ _ _ _ _ _ _ _ _ _ hf]; exact notNcc_pure _
       case ND_COMMA =>
         rw [isConst_comma] at h
-        rw [eval2_COMMA _ _ _ _ _ _ _ _ _ _ hf]; exact notNcc_wrap _ (ihr h _)
+        rw [eval2_COMMA _ _ _ _ _ _ _ _ _ _ _ hf]; exact notNcc_wrap _ ((ihr h).1 _)
       case ND_COND =>
-        rw [isConst_cond] at h
-        rw [eval2_COND _ _ _ _ _ _ _ _ _ _ hf]
-        -- the condition is accepted, and the branch `eval_truth` selects is accepted
-        cases hc : isConstExpr .wrapping fp c with
-        | error err => rw [hc] at h; cases h
-        | ok bc =>
-          rw [hc] at h
-          cases bc with
-          | false => simp [bind, Except.bind, pure, Except.pure] at h
-          | true =>
-            simp only [bind, Except.bind, Bool.not_true, Bool.false_eq_true, ite_false] at h
-            have hcn := ihc hc
-            refine notNcc_wrap _ ?_
-            cases htr : truth .wrapping fp c with
-            | error err =>
-              have := notNcc_truth fp hfp c hcn
-              rw [htr] at this
-              intro hh; exact this (by simpa [bind, Except.bind] using hh)
-            | ok b =>
-              rw [htr] at h
-              cases b with
-              | true => simp only [ite_true] at h ⊢; exact iht h _
-              | false => simp only [Bool.false_eq_true, ite_false] at h ⊢; exact ihe h _
+        have ⟨hcn, hsel⟩ := condSel rfl
+        rw [eval2_COND _ _ _ _ _ _ _ _ _ _ _ hf]
+        refine notNcc_wrap _ ?_
+        cases htr : truth .wrapping fp c with
+        | error err =>
+          have := notNcc_truth fp c hcn.1 hcn.2
+          rw [htr] at this
+          intro hh; exact this (by simpa [bind, Except.bind] using hh)
+        | ok b =>
+          have := hsel b htr
+          cases b with
+          | true => simp only [bind, Except.bind, ite_true] at this ⊢; exact this.1 _
+          | false => simp only [bind, Except.bind, Bool.false_eq_true, ite_false] at this ⊢; exact this.1 _
       all_goals (exfalso; unfold isConstExpr at h; dsimp only at h; revert h; decide)
+    · -- a node of floating type: `eval_double` arm by arm over the kinds eval_double2 folds, `eval2` through `eval_double`
+      obtain ⟨hf, hk⟩ := hfk
+      have hi := flonum_not_integer ty hf
+      suffices hd : NotNcc (evalDouble .wrapping fp (.mk k ty nv fv l r c t e)) by
+        refine ⟨fun label => ?_, hd⟩
+        rw [eval2_flonum _ _ _ _ _ _ _ _ _ _ _ _ hf]
+        exact notNcc_bind hd (fun _ => notNcc_cvtI64 _ _)
+      cases k
+      case ND_ADD =>
+        have ⟨h1, h2⟩ := bin2 (by simp [constBin])
+        rw [evalDouble_ADD _ _ _ _ _ _ _ _ _ _ hi]
+        exact notNcc_round fp _ (notNcc_bind h1.2 (fun _ => notNcc_bind h2.2 (fun _ => notNcc_pure _)))
+      case ND_SUB =>
+        have ⟨h1, h2⟩ := bin2 (by simp [constBin])
+        rw [evalDouble_SUB _ _ _ _ _ _ _ _ _ _ hi]
+        exact notNcc_round fp _ (notNcc_bind h1.2 (fun _ => notNcc_bind h2.2 (fun _ => notNcc_pure _)))
+      case ND_MUL =>
+        have ⟨h1, h2⟩ := bin2 (by simp [constBin])
+        rw [evalDouble_MUL _ _ _ _ _ _ _ _ _ _ hi]
+        exact notNcc_round fp _ (notNcc_bind h1.2 (fun _ => notNcc_bind h2.2 (fun _ => notNcc_pure _)))
+      case ND_DIV =>
+        have ⟨h1, h2⟩ := bin2 (by simp [constBin])
+        rw [evalDouble_DIV _ _ _ _ _ _ _ _ _ _ hi]
+        exact notNcc_round fp _ (notNcc_bind h1.2 (fun _ => notNcc_bind h2.2 (fun _ => notNcc_pure _)))
+      case ND_NEG =>
+        have h1 := un1 (by simp [constUn])
+        rw [evalDouble_NEG _ _ _ _ _ _ _ _ _ _ hi]
+        exact notNcc_round fp _ (notNcc_bind h1.2 (fun _ => notNcc_pure _))
+      case ND_CAST =>
+        have h1 := un1 (by simp [constUn])
+        rw [evalDouble_CAST _ _ _ _ _ _ _ _ _ _ hi]
+        exact notNcc_round fp _ h1.2
+      case ND_NUM => rw [evalDouble_NUM _ _ _ _ _ _ _ _ _ _ hi]; exact notNcc_pure _
+      case ND_COMMA =>
+        rw [isConst_comma] at h
+        rw [evalDouble_COMMA _ _ _ _ _ _ _ _ _ _ hi]; exact notNcc_round fp _ (ihr h).2
+      case ND_COND =>
+        have ⟨hcn, hsel⟩ := condSel rfl
+        rw [evalDouble_COND _ _ _ _ _ _ _ _ _ _ hi, ← truth_eq_fpTruth fp hfp c htc]
+        refine notNcc_round fp _ ?_
+        cases htr : truth .wrapping fp c with
+        | error err =>
+          have := notNcc_truth fp c hcn.1 hcn.2
+          rw [htr] at this
+          intro hh; exact this (by simpa [bind, Except.bind] using hh)
+        | ok b =>
+          have := hsel b htr
+          cases b with
+          | true => simp only [bind, Except.bind, ite_true] at this ⊢; exact this.2
+          | false => simp only [bind, Except.bind, Bool.false_eq_true, ite_false] at this ⊢; exact this.2
+      all_goals (exfalso; revert hk; decide)
+
+omit hfp in
+/-- the hypothesis is satisfiable: `noFp` embeds integers as themselves -/
+theorem noFp_zeroExact : FpZeroExact noFp := by
+  have key : ∀ v : BitVec 64, (BitVec.setWidth 80 v == BitVec.setWidth 80 (0#32)) = (v == 0#64) := by
+    intro v
+    rw [Bool.eq_iff_iff]; simp only [beq_iff_eq]
+    constructor
+    · intro h
+      apply BitVec.eq_of_toNat_eq
+      have := congrArg BitVec.toNat h
+      simp only [BitVec.toNat_setWidth, BitVec.toNat_ofNat] at this ⊢
+      omega
+    · intro h; subst h; rfl
+  constructor <;> intro v <;> exact key v
 
 end ncc2
+
+/-! ## Order of evaluation -/
+
+section order
+/-- the kinds whose arm is `lhs = eval…(node->lhs); return lhs OP eval(node->rhs)` on two `int64_t` -/
+def arithKinds : List NodeKind :=
+  [.ND_ADD, .ND_SUB, .ND_MUL, .ND_DIV, .ND_MOD, .ND_BITAND, .ND_BITOR, .ND_BITXOR, .ND_SHL, .ND_SHR]
+/-- the comparison kinds (integer or floating operands, result `int`) -/
+def cmpKinds : List NodeKind := [.ND_EQ, .ND_NE, .ND_LT, .ND_LE]
+/-- the kinds `eval_double2` folds with two operands -/
+def farithKinds : List NodeKind := [.ND_ADD, .ND_SUB, .ND_MUL, .ND_DIV]
+
+/-- only `+` and `-` hand the relocation label to their left operand (`eval2(node->lhs, label)`) -/
+def leftLabel (k : NodeKind) (label : Bool) : Bool := if k = .ND_ADD ∨ k = .ND_SUB then label else false
+
+/-- **left first**: a failure of the left operand `L` is the failure of the node `N` whatever the right operand `R` is;
+    a failure of the right operand is the node's only when the left operand has a value -/
+def LeftFirst {α β γ : Type} (L : Except Fail α) (R : Except Fail β) (N : Except Fail γ) : Prop :=
+  (∀ f, L = .error f → N = .error f) ∧ (∀ a f, L = .ok a → R = .error f → N = .error f)
+
+theorem leftFirst_bind {α β γ δ : Type} (L : Except Fail α) (R : Except Fail β) (g : α → β → Except Fail γ) (w : γ → Except Fail δ) :
+    LeftFirst L R ((L >>= fun a => R >>= fun b => g a b) >>= w) := by
+  constructor
+  · intro f h; rw [h]; rfl
+  · intro a f h1 h2; rw [h1, h2]; rfl
+
+variable (fp : FpEnv) (ty : CTy) (nv : BitVec 64) (fv : BitVec 80) (l r c t e : CNode) (label : Bool)
+
+theorem order_arith (hf : isFlonum ty = false) (k : NodeKind) (hk : k ∈ arithKinds) :
+    LeftFirst (eval2 .wrapping fp l (leftLabel k label)) (eval2 .wrapping fp r false)
+      (eval2 .wrapping fp (.mk k ty nv fv l r c t e) label) := by
+  simp only [arithKinds, List.mem_cons, List.mem_nil_iff, or_false] at hk
+  rcases hk with h | h | h | h | h | h | h | h | h | h <;> subst h <;> simp only [leftLabel, reduceCtorEq, or_self, or_true, true_or, or_false, ite_true, ite_false]
+  · rw [eval2_ADD _ _ _ _ _ _ _ _ _ _ _ hf]; exact leftFirst_bind _ _ _ _
+  · rw [eval2_SUB _ _ _ _ _ _ _ _ _ _ _ hf]; exact leftFirst_bind _ _ _ _
+  · rw [eval2_MUL _ _ _ _ _ _ _ _ _ _ _ hf]; exact leftFirst_bind _ _ _ _
+  · rw [eval2_DIV _ _ _ _ _ _ _ _ _ _ _ hf]; exact leftFirst_bind _ _ _ _
+  · rw [eval2_MOD _ _ _ _ _ _ _ _ _ _ _ hf]; exact leftFirst_bind _ _ _ _
+  · rw [eval2_BITAND _ _ _ _ _ _ _ _ _ _ _ hf]; exact leftFirst_bind _ _ _ _
+  · rw [eval2_BITOR _ _ _ _ _ _ _ _ _ _ _ hf]; exact leftFirst_bind _ _ _ _
+  · rw [eval2_BITXOR _ _ _ _ _ _ _ _ _ _ _ hf]; exact leftFirst_bind _ _ _ _
+  · rw [eval2_SHL _ _ _ _ _ _ _ _ _ _ _ hf]; exact leftFirst_bind _ _ _ _
+  · rw [eval2_SHR _ _ _ _ _ _ _ _ _ _ _ hf]; exact leftFirst_bind _ _ _ _
+
+theorem cmpArm_order (cf : BitVec 80 → BitVec 80 → Bool) (cu cs : BitVec 64 → BitVec 64 → Bool) (tl : CTy)
+    (htl : CNode.tyOf l = .ok tl) (w : BitVec 64 → Except Fail (BitVec 64)) :
+    (isFlonum tl = false → LeftFirst (eval2 .wrapping fp l false) (eval2 .wrapping fp r false) (cmpArm .wrapping fp cf cu cs l r >>= w)) ∧
+    (isFlonum tl = true → LeftFirst (evalDouble .wrapping fp l) (evalDouble .wrapping fp r) (cmpArm .wrapping fp cf cu cs l r >>= w)) := by
+  unfold cmpArm
+  simp only [htl, bind, Except.bind]
+  constructor
+  · intro hfl
+    simp only [hfl, Bool.false_eq_true, ite_false]
+    cases tl.isUnsigned <;> simp only [Bool.false_eq_true, ite_false, ite_true] <;> exact leftFirst_bind _ _ _ _
+  · intro hfl
+    simp only [hfl, ite_true]
+    exact leftFirst_bind _ _ _ _
+
+theorem order_cmp (hf : isFlonum ty = false) (k : NodeKind) (hk : k ∈ cmpKinds) (tl : CTy) (htl : CNode.tyOf l = .ok tl) :
+    (isFlonum tl = false → LeftFirst (eval2 .wrapping fp l false) (eval2 .wrapping fp r false)
+        (eval2 .wrapping fp (.mk k ty nv fv l r c t e) label)) ∧
+    (isFlonum tl = true → LeftFirst (evalDouble .wrapping fp l) (evalDouble .wrapping fp r)
+        (eval2 .wrapping fp (.mk k ty nv fv l r c t e) label)) := by
+  simp only [cmpKinds, List.mem_cons, List.mem_nil_iff, or_false] at hk
+  rcases hk with h | h | h | h <;> subst h
+  · rw [eval2_EQ _ _ _ _ _ _ _ _ _ _ _ hf]; exact cmpArm_order fp l r _ _ _ tl htl _
+  · rw [eval2_NE _ _ _ _ _ _ _ _ _ _ _ hf]; exact cmpArm_order fp l r _ _ _ tl htl _
+  · rw [eval2_LT _ _ _ _ _ _ _ _ _ _ _ hf]; exact cmpArm_order fp l r _ _ _ tl htl _
+  · rw [eval2_LE _ _ _ _ _ _ _ _ _ _ _ hf]; exact cmpArm_order fp l r _ _ _ tl htl _
+
+theorem order_farith (hi : isInteger ty = false) (k : NodeKind) (hk : k ∈ farithKinds) :
+    LeftFirst (evalDouble .wrapping fp l) (evalDouble .wrapping fp r) (evalDouble .wrapping fp (.mk k ty nv fv l r c t e)) := by
+  simp only [farithKinds, List.mem_cons, List.mem_nil_iff, or_false] at hk
+  rcases hk with h | h | h | h <;> subst h
+  · rw [evalDouble_ADD _ _ _ _ _ _ _ _ _ _ hi]; exact leftFirst_bind _ _ _ _
+  · rw [evalDouble_SUB _ _ _ _ _ _ _ _ _ _ hi]; exact leftFirst_bind _ _ _ _
+  · rw [evalDouble_MUL _ _ _ _ _ _ _ _ _ _ hi]; exact leftFirst_bind _ _ _ _
+  · rw [evalDouble_DIV _ _ _ _ _ _ _ _ _ _ hi]; exact leftFirst_bind _ _ _ _
+
+end order
 
 /-! ## Consumers -/
 
@@ -1773,6 +2095,72 @@ theorem store_int (v : Int) (h : ITy.inRange .i32 v = true) : (castS 32 (img v))
 theorem store_long (v : Int) (h : ITy.inRange .i64 v = true) : (img v).toInt = v := by
   rng; exact img_toInt v h.1 h.2
 
+/-! ### `_Alignas(n)` / `aligned(n)`: the folded `int64_t` is validated, then stored in an `int` -/
+
+theorem shl28 : shlS .wrapping (1#32) (28#32).toInt = .ok 268435456#32 := by decide
+
+/-- the condition of the two alignment checks, evaluated -/
+def alignBad (v : BitVec 64) : Bool := BitVec.slt v 0#64 || BitVec.slt 268435456#64 v || (v &&& (v - 1#64)) != 0
+
+/-- the `_Alignas` check: rejected iff negative, above 2^28, or neither 0 nor a power of two -/
+theorem reject_declspec_eq (v : BitVec 64) : reject_declspec_align .wrapping v = .ok (alignBad v) := by
+  unfold reject_declspec_align alignBad
+  rw [shl28]
+  simp only [subS, ovf, bind, Except.bind, pure, Except.pure]
+  cases h1 : BitVec.slt v 0#64 <;> simp
+  cases h2 : BitVec.slt (castS 64 268435456#32) v <;> simp_all [castS]
+
+/-- the `aligned(n)` check -/
+theorem reject_attribute_eq (v : BitVec 64) : reject_attribute_list_ty_align .wrapping v = .ok (alignBad v) := by
+  unfold reject_attribute_list_ty_align alignBad
+  rw [shl28]
+  simp only [subS, ovf, bind, Except.bind, pure, Except.pure]
+  cases h1 : BitVec.slt v 0#64 <;> simp
+  cases h2 : BitVec.slt (castS 64 268435456#32) v <;> simp_all [castS]
+
+theorem align_exact (v : BitVec 64) (h1 : BitVec.slt v 0#64 = false) (h2 : BitVec.slt 268435456#64 v = false) :
+    (castS 32 v).toInt = v.toInt ∧ 0 ≤ v.toInt ∧ v.toInt ≤ 268435456 := by
+  simp only [BitVec.slt, decide_eq_false_iff_not, Int.not_lt] at h1 h2
+  have e1 : (0#64).toInt = 0 := by decide
+  have e2 : (268435456#64).toInt = 268435456 := by decide
+  rw [e1] at h1; rw [e2] at h2
+  refine ⟨?_, h1, h2⟩
+  simp only [castS]
+  rw [BitVec.signExtend_eq_setWidth_of_le _ (by decide), BitVec.toInt_setWidth]
+  have := BitVec.toInt_eq_toNat_of_lt (x := v) (by have := BitVec.toInt_eq_toNat_cond v; omega)
+  simp only [Int.bmod_def]
+  omega
+
+/-- what an alignment store answers: the diagnostic, or the `int` holding exactly the folded value (which then lies in 0 .. 2^28) -/
+def AlignStored (v : BitVec 64) (r : Except Fail (BitVec 32)) : Prop :=
+  r = .error (.diag "alignment must be a power of two no larger than 2^28") ∨
+    ∃ w, r = .ok w ∧ w.toInt = v.toInt ∧ 0 ≤ v.toInt ∧ v.toInt ≤ 268435456
+
+theorem store_declspec_exact (v : BitVec 64) : AlignStored v (store_declspec_align .wrapping v) := by
+  unfold store_declspec_align AlignStored
+  rw [reject_declspec_eq]
+  simp only [bind, Except.bind]
+  cases hb : alignBad v
+  · right
+    simp only [alignBad, Bool.or_eq_false_iff] at hb
+    exact ⟨_, rfl, align_exact v hb.1.1 hb.1.2⟩
+  · left; rfl
+
+theorem store_attribute_exact (v : BitVec 64) : AlignStored v (store_attribute_list_ty_align .wrapping v) := by
+  unfold store_attribute_list_ty_align AlignStored
+  rw [reject_attribute_eq]
+  simp only [bind, Except.bind]
+  cases hb : alignBad v
+  · right
+    simp only [alignBad, Bool.or_eq_false_iff] at hb
+    exact ⟨_, rfl, align_exact v hb.1.1 hb.1.2⟩
+  · left; rfl
+
+/-- every power of two up to 2^28 (and 0, which requests nothing) passes both checks and is stored exactly -/
+theorem store_align_pow2 : ∀ k ∈ List.range 29,
+    store_declspec_align .wrapping (BitVec.ofNat 64 (2 ^ k)) = .ok (BitVec.ofNat 32 (2 ^ k)) ∧
+    store_attribute_list_ty_align .wrapping (BitVec.ofNat 64 (2 ^ k)) = .ok (BitVec.ofNat 32 (2 ^ k)) := by decide
+
 /-- object representation of the value `x` in an object of type `t`, zero-extended to 64 bits -/
 def objBits (t : ITy) (x : Int) : BitVec 64 := BitVec.ofInt 64 (x % 2 ^ (8 * t.size))
 
@@ -1782,7 +2170,7 @@ theorem writeBuf_descr (t : ITy) (x : Int) : writeBuf (img x) (descr t).size = .
 
 /-- **static initializer**: the object holds the C11 conversion of the value to the object's type -/
 theorem store_gvar (fp : FpEnv) (t : ITy) (e : CExpr) (v : Int) (h : Folds fp e v) :
-    storeGvar fp (descr t) (elabE e) (img v) = .ok (objBits t (t.convert v)) := by
+    storeGvar .wrapping fp (descr t) (elabE e) (img v) = .ok (objBits t (t.convert v)) := by
   unfold storeGvar
   by_cases hb : t = .bool
   · subst hb
@@ -1801,6 +2189,13 @@ theorem store_gvar (fp : FpEnv) (t : ITy) (e : CExpr) (v : Int) (h : Folds fp e 
     cases t <;> simp only [objBits, ITy.convert, ITy.signed, ITy.bits, ITy.size, ite_true, ite_false, Bool.false_eq_true] <;>
       first | exact absurd rfl hb | (apply img_congr; omega)
 
+/-- **static initializer, the whole scalar path** (`eval2(init->expr, &label)` included): an integer constant expression is
+    never taken for a floating initializer, and the object holds the C11 conversion of its value -/
+theorem store_gvar_scalar (fp : FpEnv) (t : ITy) (e : CExpr) (v : Int) (h : Folds fp e v) :
+    storeGvarScalar .wrapping fp (descr t) (elabE e) = .ok (objBits t (t.convert v)) := by
+  unfold storeGvarScalar
+  simp only [tyOf_elab, bind, Except.bind, descr_not_flonum, Bool.false_and, Bool.false_eq_true, ite_false, h.2 true]
+  exact store_gvar fp t e v h
 
 end consumers
 
